@@ -6,15 +6,24 @@
 //! nesting levels); Luau grammar (luau.org/grammar) and the behaviour of the reference Luau parser.
 
 use crate::luasyn::ast::*;
-use crate::luasyn::lex::{lex, Comment, TokKind, Token};
+use crate::luasyn::lex::{lex, lex_no_shebang, Comment, TokKind, Token};
 use crate::luasyn::literal;
 use crate::luasyn::{Mode, SynError};
 
 /// Maximum syntactic nesting (recursion) depth, as in Lua 5.1 (`LUAI_MAXCCALLS`).
 pub const MAX_DEPTH: usize = 200;
-/// Maximum length of a non-recursive chain that nests the tree to the left (binary operator
-/// chains, call/index suffix chains, `T???`); keeps tree depth bounded for recursive consumers.
+/// Bound on tree depth that is produced *without* parser recursion: along any root-to-leaf path
+/// of the resulting tree, the number of binary-operator edges, call/index/field suffix edges and
+/// `T?` edges is at most `MAX_CHAIN` (e.g. `a + a + ... + a` with 1000 operators, or 1000 chained
+/// calls).  Together with `MAX_DEPTH` this keeps the tree depth below roughly
+/// `MAX_CHAIN + 4 * MAX_DEPTH` for recursive consumers (census, resolver, printer, `Drop`).
 pub const MAX_CHAIN: usize = 1000;
+
+/// Depth limit of the first parsing attempt, which runs on the caller's stack.  Only if that
+/// limit is hit, the input is parsed again with `MAX_DEPTH` on a dedicated thread with a large
+/// stack, so results never depend on the caller's stack size or on the build profile.
+const TIER1_DEPTH: usize = if cfg!(debug_assertions) { 24 } else { 100 };
+const TIER2_STACK_BYTES: usize = 64 << 20;
 
 #[derive(Clone, Debug)]
 pub struct ParseOutput {
@@ -68,6 +77,12 @@ struct Parser {
     type_depth: usize,
     funcs: Vec<FuncState>,
     depth: usize,
+    max_depth: usize,
+    hit_depth_limit: bool,
+    /// chain height (see `MAX_CHAIN`) of everything parsed since the innermost enclosing chain
+    /// site reset it; chain sites save / reset / fold it, everything else leaves it alone, so
+    /// composite nodes automatically get the maximum over their children
+    c: usize,
     ambiguous_calls: Vec<usize>,
 }
 
@@ -221,7 +236,8 @@ impl Parser {
 
     fn enter(&mut self) -> PResult<()> {
         self.depth += 1;
-        if self.depth > MAX_DEPTH {
+        if self.depth > self.max_depth {
+            self.hit_depth_limit = true;
             return self.err(format!("chunk has too many syntax levels (limit {})", MAX_DEPTH));
         }
         Ok(())
@@ -231,10 +247,9 @@ impl Parser {
         self.depth -= 1;
     }
 
-    fn chain_tick(&self, n: &mut usize) -> PResult<()> {
-        *n += 1;
-        if *n > MAX_CHAIN {
-            return self.err(format!("expression chain too long (limit {})", MAX_CHAIN));
+    fn check_chain(&self, h: usize) -> PResult<()> {
+        if h > MAX_CHAIN {
+            return self.err(format!("expression too complex: operator / suffix chains nest deeper than {}", MAX_CHAIN));
         }
         Ok(())
     }
@@ -750,6 +765,8 @@ impl Parser {
 
     fn parse_subexpr(&mut self, limit: u8) -> PResult<Expr> {
         self.enter()?;
+        let saved_c = self.c;
+        self.c = 0;
         let mut left = if let Some(op) = self.cur_unop() {
             self.advance();
             let operand = self.parse_subexpr(UNARY_PRIORITY)?;
@@ -757,17 +774,51 @@ impl Parser {
         } else {
             self.parse_assertion_expr()?
         };
-        let mut chain = 0;
+        let mut h = self.c;
         while let Some(op) = self.cur_binop() {
             let (l, r) = op.binding_power();
             if l <= limit {
                 break;
             }
-            self.chain_tick(&mut chain)?;
+            if op == BinOp::Concat {
+                // `a .. b .. c ..` is right associative; the reference parsers recurse once per
+                // operator (Lua 5.1 gives up after 200).  Collect the operands iteratively instead
+                // and fold to the right, so long concatenations do not count as nesting levels.
+                // An operand is parsed with a limit that stops at the next `..`.
+                let mut operands = vec![left];
+                // operand i sits i + 1 edges below the top of the folded tree, the last one i edges
+                let mut inner = h + 1; // max of (chain height + depth) over the non-last operands
+                let mut last_c: Option<usize> = None;
+                while self.cur_binop() == Some(BinOp::Concat) {
+                    self.advance();
+                    self.c = 0;
+                    let operand = self.parse_subexpr(l)?;
+                    let k = operands.len();
+                    if let Some(pc) = last_c {
+                        inner = inner.max(pc + k); // the previous operand (index k - 1) is not last
+                    }
+                    last_c = Some(self.c);
+                    self.check_chain(inner.max(self.c + k))?;
+                    operands.push(operand);
+                }
+                let n = operands.len() - 1;
+                debug_assert!(n >= 1);
+                h = inner.max(last_c.unwrap() + n);
+                let mut acc = operands.pop().unwrap();
+                while let Some(prev) = operands.pop() {
+                    acc = Expr::Binary(BinOp::Concat, Box::new(prev), Box::new(acc));
+                }
+                left = acc;
+                continue;
+            }
             self.advance();
+            self.c = 0;
             let right = self.parse_subexpr(r)?;
+            h = h.max(self.c) + 1;
+            self.check_chain(h)?;
             left = Expr::Binary(op, Box::new(left), Box::new(right));
         }
+        self.c = saved_c.max(h);
         self.leave();
         Ok(left)
     }
@@ -964,6 +1015,8 @@ impl Parser {
 
     /// prefix expression with its suffixes: `Name | (expr)` then `.n`, `[e]`, `:n args`, args
     fn parse_primary_expr(&mut self) -> PResult<Expr> {
+        let saved_c = self.c;
+        self.c = 0;
         let mut e = if self.cur().kind == TokKind::Name {
             let n = self.cur().text.clone();
             self.advance();
@@ -983,26 +1036,24 @@ impl Parser {
         } else {
             return self.err_expected("expression");
         };
-        let mut chain = 0;
+        let mut h = self.c;
         loop {
+            self.c = 0;
             let t = self.cur();
             match t.kind {
                 TokKind::Symbol => match t.text.as_str() {
                     "." => {
-                        self.chain_tick(&mut chain)?;
                         self.advance();
                         let name = self.expect_name("field name")?;
                         e = Expr::Field { obj: Box::new(e), name };
                     }
                     "[" => {
-                        self.chain_tick(&mut chain)?;
                         self.advance();
                         let key = self.parse_expr()?;
                         self.expect_sym("]")?;
                         e = Expr::Index { obj: Box::new(e), key: Box::new(key) };
                     }
                     ":" => {
-                        self.chain_tick(&mut chain)?;
                         self.advance();
                         let name = self.expect_name("method name")?;
                         if self.luau() && self.at_instantiation() {
@@ -1013,12 +1064,10 @@ impl Parser {
                         e = Expr::MethodCall { obj: Box::new(e), name, args, sugar };
                     }
                     "(" | "{" => {
-                        self.chain_tick(&mut chain)?;
                         let (args, sugar) = self.parse_call_args()?;
                         e = Expr::Call { f: Box::new(e), args, sugar };
                     }
                     "<" if self.luau() && self.at_instantiation() => {
-                        self.chain_tick(&mut chain)?;
                         let sp = self.span_begin(self.cur().start);
                         self.advance();
                         self.advance();
@@ -1035,13 +1084,15 @@ impl Parser {
                     _ => break,
                 },
                 TokKind::Str => {
-                    self.chain_tick(&mut chain)?;
                     let (args, sugar) = self.parse_call_args()?;
                     e = Expr::Call { f: Box::new(e), args, sugar };
                 }
                 _ => break,
             }
+            h = h.max(self.c) + 1;
+            self.check_chain(h)?;
         }
+        self.c = saved_c.max(h);
         Ok(e)
     }
 
@@ -1139,10 +1190,10 @@ impl Parser {
         let mut parts = vec![first];
         let mut is_union = leading == Some(false);
         let mut is_inter = leading == Some(true);
-        let mut chain = 0;
+        // conservative: start from the chain height of everything parsed so far at this site
+        let mut h = self.c;
         loop {
             if self.check_sym("|") {
-                self.chain_tick(&mut chain)?;
                 is_union = true;
                 if is_inter {
                     break;
@@ -1150,7 +1201,6 @@ impl Parser {
                 self.advance();
                 parts.push(self.parse_simple_type_only()?);
             } else if self.check_sym("&") {
-                self.chain_tick(&mut chain)?;
                 is_inter = true;
                 if is_union {
                     break;
@@ -1158,11 +1208,13 @@ impl Parser {
                 self.advance();
                 parts.push(self.parse_simple_type_only()?);
             } else if self.check_sym("?") {
-                self.chain_tick(&mut chain)?;
                 is_union = true;
                 if is_inter {
                     break;
                 }
+                h += 1;
+                self.check_chain(h)?;
+                self.c = self.c.max(h);
                 self.advance();
                 let last = parts.pop().unwrap();
                 parts.push(Type::Optional(Box::new(last)));
@@ -1541,8 +1593,14 @@ impl Parser {
     }
 }
 
-fn new_parser(src: &str, mode: Mode, opts: ParseOptions) -> Result<(Parser, Vec<Comment>, Option<String>), SynError> {
-    let out = lex(src, mode)?;
+fn new_parser(
+    src: &str,
+    mode: Mode,
+    opts: ParseOptions,
+    shebang: bool,
+    max_depth: usize,
+) -> Result<(Parser, Vec<Comment>, Option<String>), SynError> {
+    let out = if shebang { lex(src, mode)? } else { lex_no_shebang(src, mode)? };
     let p = Parser {
         mode,
         opts,
@@ -1552,9 +1610,85 @@ fn new_parser(src: &str, mode: Mode, opts: ParseOptions) -> Result<(Parser, Vec<
         type_depth: 0,
         funcs: vec![FuncState { vararg: true, loop_depth: 0 }],
         depth: 0,
+        max_depth,
+        hit_depth_limit: false,
+        c: 0,
         ambiguous_calls: Vec::new(),
     };
     Ok((p, out.comments, out.shebang))
+}
+
+/// Outcome of one parsing attempt: `Err(None)` = the attempt's depth limit was hit (retry with a
+/// larger one), `Err(Some(e))` = a genuine error.
+type Attempt<T> = Result<T, Option<SynError>>;
+
+fn attempt_chunk(src: &str, mode: Mode, opts: ParseOptions, max_depth: usize) -> Attempt<ParseOutput> {
+    let (mut p, comments, shebang) = new_parser(src, mode, opts, true, max_depth).map_err(Some)?;
+    let r = p.parse_block().and_then(|block| {
+        if p.cur().kind != TokKind::Eof {
+            return p.err_expected("<eof>");
+        }
+        Ok(block)
+    });
+    match r {
+        Ok(block) => {
+            debug_assert_eq!(p.type_depth, 0);
+            debug_assert_eq!(p.depth, 0);
+            let mut type_spans = p.type_spans;
+            type_spans.sort();
+            Ok(ParseOutput { block, tokens: p.toks, comments, type_spans, shebang, ambiguous_calls: p.ambiguous_calls })
+        }
+        Err(e) => {
+            if p.hit_depth_limit && max_depth < MAX_DEPTH {
+                Err(None)
+            } else {
+                Err(Some(e))
+            }
+        }
+    }
+}
+
+fn attempt_expr(src: &str, mode: Mode, max_depth: usize) -> Attempt<Expr> {
+    let (mut p, _, _) = new_parser(src, mode, ParseOptions::default(), false, max_depth).map_err(Some)?;
+    let r = p.parse_expr().and_then(|e| {
+        if p.cur().kind != TokKind::Eof {
+            return p.err_expected("<eof>");
+        }
+        Ok(e)
+    });
+    r.map_err(|e| if p.hit_depth_limit && max_depth < MAX_DEPTH { None } else { Some(e) })
+}
+
+/// Runs `f(TIER1_DEPTH)` on this thread; if the depth limit was hit, `f(MAX_DEPTH)` on a thread
+/// with a large stack.
+fn two_tier<T: Send>(f: impl Fn(usize) -> Attempt<T> + Sync) -> Result<T, SynError> {
+    match f(TIER1_DEPTH.min(MAX_DEPTH)) {
+        Ok(v) => return Ok(v),
+        Err(Some(e)) => return Err(e),
+        Err(None) => {}
+    }
+    let r = std::thread::scope(|s| {
+        let h = std::thread::Builder::new()
+            .name("luasyn-deep-parse".to_string())
+            .stack_size(TIER2_STACK_BYTES)
+            .spawn_scoped(s, || f(MAX_DEPTH));
+        match h {
+            Ok(h) => match h.join() {
+                Ok(r) => r,
+                Err(panic) => std::panic::resume_unwind(panic),
+            },
+            Err(e) => Err(Some(SynError {
+                msg: format!("input is deeply nested and no parser thread could be spawned: {}", e),
+                pos: 0,
+                line: 1,
+            })),
+        }
+    });
+    match r {
+        Ok(v) => Ok(v),
+        Err(Some(e)) => Err(e),
+        Err(None) => unreachable!("the second attempt never reports a soft depth limit"),
+    }
 }
 
 pub fn parse(src: &str, mode: Mode) -> Result<ParseOutput, SynError> {
@@ -1562,26 +1696,13 @@ pub fn parse(src: &str, mode: Mode) -> Result<ParseOutput, SynError> {
 }
 
 pub fn parse_with_options(src: &str, mode: Mode, opts: ParseOptions) -> Result<ParseOutput, SynError> {
-    let (mut p, comments, shebang) = new_parser(src, mode, opts)?;
-    let block = p.parse_block()?;
-    if p.cur().kind != TokKind::Eof {
-        return p.err_expected("<eof>");
-    }
-    debug_assert_eq!(p.type_depth, 0);
-    debug_assert_eq!(p.depth, 0);
-    let mut type_spans = p.type_spans;
-    type_spans.sort();
-    Ok(ParseOutput { block, tokens: p.toks, comments, type_spans, shebang, ambiguous_calls: p.ambiguous_calls })
+    two_tier(|d| attempt_chunk(src, mode, opts, d))
 }
 
-/// The whole input must be exactly one expression.
+/// The whole input must be exactly one expression.  (No shebang line is recognised here, so an
+/// expression may start with the length operator `#`.)
 pub fn parse_expr(src: &str, mode: Mode) -> Result<Expr, SynError> {
-    let (mut p, _, _) = new_parser(src, mode, ParseOptions::default())?;
-    let e = p.parse_expr()?;
-    if p.cur().kind != TokKind::Eof {
-        return p.err_expected("<eof>");
-    }
-    Ok(e)
+    two_tier(|d| attempt_expr(src, mode, d))
 }
 
 #[cfg(test)]
@@ -1640,6 +1761,1632 @@ mod smoke {
         println!("parsed {} of {} files", ok, files.len());
         for f in &failures {
             println!("FAIL {}", f);
+        }
+        // Known invalid input: a fuzzed case with a top-level `continue` outside any loop (the
+        // reference Luau parser rejects it as well); it parses once the context check is relaxed.
+        let known = "/repo/tests/fuzzed_test_cases/a.lua";
+        for f in &failures {
+            assert!(f.starts_with(known), "unexpected parse failure: {}", f);
+        }
+        if let Ok(src) = std::fs::read_to_string(known) {
+            let loose = ParseOptions { check_loop_context: false, ..Default::default() };
+            assert!(parse_with_options(&src, Mode::Luau, loose).is_ok());
+        }
+    }
+}
+
+/// Compact, unambiguous rendering of trees; used by the tests to assert tree shapes.
+#[cfg(test)]
+pub(crate) mod dump {
+    use crate::luasyn::ast::*;
+
+    fn bytes(b: &[u8]) -> String {
+        let mut s = String::from("\"");
+        for &c in b {
+            match c {
+                b'"' => s.push_str("\\\""),
+                b'\\' => s.push_str("\\\\"),
+                b'\n' => s.push_str("\\n"),
+                0x20..=0x7e => s.push(c as char),
+                _ => s.push_str(&format!("\\x{:02X}", c)),
+            }
+        }
+        s.push('"');
+        s
+    }
+
+    fn join<T>(v: &[T], f: impl Fn(&T) -> String) -> String {
+        v.iter().map(f).collect::<Vec<_>>().join(", ")
+    }
+
+    pub fn num(v: f64) -> String {
+        if v == v.trunc() && v.abs() < 1e15 {
+            if v == 0.0 && v.is_sign_negative() {
+                "-0".to_string()
+            } else {
+                format!("{}", v as i64)
+            }
+        } else {
+            format!("{:?}", v)
+        }
+    }
+
+    pub fn expr(e: &Expr) -> String {
+        match e {
+            Expr::Nil => "nil".into(),
+            Expr::True => "true".into(),
+            Expr::False => "false".into(),
+            Expr::Vararg => "...".into(),
+            Expr::Number { value, .. } => num(*value),
+            Expr::Str { value, .. } => bytes(value),
+            Expr::Interp(segs) => format!(
+                "interp[{}]",
+                join(segs, |s| match s {
+                    InterpSeg::Str(b) => bytes(b),
+                    InterpSeg::Expr(e) => expr(e),
+                })
+            ),
+            Expr::Name(n) => n.clone(),
+            Expr::Index { obj, key } => format!("{}[{}]", expr(obj), expr(key)),
+            Expr::Field { obj, name } => format!("{}.{}", expr(obj), name),
+            Expr::Call { f, args, sugar } => format!("{}{}", expr(f), call_args(args, *sugar)),
+            Expr::MethodCall { obj, name, args, sugar } => format!("{}:{}{}", expr(obj), name, call_args(args, *sugar)),
+            Expr::Function { attrs, func } => format!("{}function{}", attributes(attrs), func_body(func)),
+            Expr::Paren(x) => format!("P[{}]", expr(x)),
+            Expr::Unary(op, x) => match op {
+                UnOp::Not => format!("(not {})", expr(x)),
+                _ => format!("({}{})", op.symbol(), expr(x)),
+            },
+            Expr::Binary(op, a, b) => format!("({} {} {})", expr(a), op.symbol(), expr(b)),
+            Expr::Table(items) => format!(
+                "{{{}}}",
+                join(items, |it| match it {
+                    TableItem::Pos(v) => expr(v),
+                    TableItem::Named(n, v) => format!("{}={}", n, expr(v)),
+                    TableItem::Keyed(k, v) => format!("[{}]={}", expr(k), expr(v)),
+                })
+            ),
+            Expr::IfExpr { clauses, else_ } => format!(
+                "if({}; else {})",
+                clauses.iter().map(|(c, v)| format!("{} -> {}", expr(c), expr(v))).collect::<Vec<_>>().join("; "),
+                expr(else_)
+            ),
+            Expr::Cast { expr: x, ty: t } => format!("({} :: {})", expr(x), ty(t)),
+            Expr::Instantiate { expr: x, types } => format!("{}<<{}>>", expr(x), join(types, type_arg)),
+        }
+    }
+
+    fn call_args(args: &[Expr], sugar: CallSugar) -> String {
+        let mark = match sugar {
+            CallSugar::Parens => "",
+            CallSugar::Str => "!s",
+            CallSugar::Table => "!t",
+        };
+        format!("{}({})", mark, join(args, expr))
+    }
+
+    pub fn attributes(attrs: &[Attribute]) -> String {
+        let mut s = String::new();
+        for a in attrs {
+            match a {
+                Attribute::Name(n) => s.push_str(&format!("@{} ", n)),
+                Attribute::Group(elems) => s.push_str(&format!(
+                    "@[{}] ",
+                    join(elems, |e| match &e.args {
+                        None => e.name.clone(),
+                        Some(AttributeArgs::Tuple(v)) => format!("{}({})", e.name, join(v, expr)),
+                        Some(AttributeArgs::Str(b)) => format!("{} {}", e.name, bytes(b)),
+                        Some(AttributeArgs::Table(t)) => format!("{} {}", e.name, expr(t)),
+                    })
+                )),
+            }
+        }
+        s
+    }
+
+    fn binding(b: &Binding) -> String {
+        match &b.ty {
+            Some(t) => format!("{}: {}", b.name, ty(t)),
+            None => b.name.clone(),
+        }
+    }
+
+    fn generics(g: &Option<Generics>) -> String {
+        match g {
+            None => String::new(),
+            Some(g) => {
+                let mut v: Vec<String> = g.types.clone();
+                v.extend(g.packs.iter().map(|p| format!("{}...", p)));
+                format!("<{}>", v.join(", "))
+            }
+        }
+    }
+
+    pub fn func_body(f: &FuncBody) -> String {
+        let mut ps: Vec<String> = f.params.iter().map(binding).collect();
+        if f.vararg {
+            ps.push(match &f.vararg_ty {
+                None => "...".to_string(),
+                Some(v) => match &**v {
+                    VariadicAnnotation::Type(t) => format!("...: {}", ty(t)),
+                    VariadicAnnotation::GenericPack(n) => format!("...: {}...", n),
+                },
+            });
+        } else {
+            assert!(f.vararg_ty.is_none());
+        }
+        let ret = match &f.ret_ty {
+            None => String::new(),
+            Some(r) => format!(": {}", ret_ty(r)),
+        };
+        format!("{}({}){} {{{}}}", generics(&f.generics), ps.join(", "), ret, block(&f.body))
+    }
+
+    pub fn block(b: &Block) -> String {
+        b.stmts.iter().map(stmt).collect::<Vec<_>>().join("; ")
+    }
+
+    pub fn stmt(s: &Stmt) -> String {
+        match s {
+            Stmt::Local { is_const, names, values } => {
+                let kw = if *is_const { "const" } else { "local" };
+                if values.is_empty() {
+                    format!("{} {}", kw, join(names, binding))
+                } else {
+                    format!("{} {} = {}", kw, join(names, binding), join(values, expr))
+                }
+            }
+            Stmt::Assign { targets, values } => format!("{} = {}", join(targets, expr), join(values, expr)),
+            Stmt::CompoundAssign { target, op, value } => format!("{} {}= {}", expr(target), op.symbol(), expr(value)),
+            Stmt::Call(e) => format!("call {}", expr(e)),
+            Stmt::Do(b) => format!("do {{{}}}", block(b)),
+            Stmt::While { cond, body } => format!("while {} {{{}}}", expr(cond), block(body)),
+            Stmt::Repeat { body, cond } => format!("repeat {{{}}} until {}", block(body), expr(cond)),
+            Stmt::If { clauses, else_ } => {
+                let mut s = String::new();
+                for (i, (c, b)) in clauses.iter().enumerate() {
+                    s.push_str(&format!("{} {} {{{}}}", if i == 0 { "if" } else { " elseif" }, expr(c), block(b)));
+                }
+                if let Some(b) = else_ {
+                    s.push_str(&format!(" else {{{}}}", block(b)));
+                }
+                s
+            }
+            Stmt::NumFor { var, start, limit, step, body } => format!(
+                "for {} = {}, {}{} {{{}}}",
+                binding(var),
+                expr(start),
+                expr(limit),
+                step.as_ref().map(|s| format!(", {}", expr(s))).unwrap_or_default(),
+                block(body)
+            ),
+            Stmt::GenFor { vars, exprs, body } => {
+                format!("for {} in {} {{{}}}", join(vars, binding), join(exprs, expr), block(body))
+            }
+            Stmt::Function { attrs, name, func } => {
+                let mut n = name.base.clone();
+                for f in &name.fields {
+                    n.push('.');
+                    n.push_str(f);
+                }
+                if let Some(m) = &name.method {
+                    n.push(':');
+                    n.push_str(m);
+                }
+                format!("{}function {}{}", attributes(attrs), n, func_body(func))
+            }
+            Stmt::LocalFunction { attrs, is_const, name, func } => format!(
+                "{}{} function {}{}",
+                attributes(attrs),
+                if *is_const { "const" } else { "local" },
+                name,
+                func_body(func)
+            ),
+            Stmt::Return(v) => format!("return {}", join(v, expr)).trim_end().to_string(),
+            Stmt::Break => "break".into(),
+            Stmt::Continue => "continue".into(),
+            Stmt::TypeDecl { export, name, generics, ty: t } => {
+                let g = match generics {
+                    None => String::new(),
+                    Some(g) => {
+                        let mut v: Vec<String> = g
+                            .types
+                            .iter()
+                            .map(|(n, d)| match d {
+                                None => n.clone(),
+                                Some(d) => format!("{} = {}", n, ty(d)),
+                            })
+                            .collect();
+                        v.extend(g.packs.iter().map(|(n, d)| match d {
+                            None => format!("{}...", n),
+                            Some(GenericPackDefault::Pack(p)) => format!("{}... = {}", n, pack(p)),
+                            Some(GenericPackDefault::Variadic(t)) => format!("{}... = ...{}", n, ty(t)),
+                            Some(GenericPackDefault::GenericPack(g)) => format!("{}... = {}...", n, g),
+                        }));
+                        format!("<{}>", v.join(", "))
+                    }
+                };
+                format!("{}type {}{} = {}", if *export { "export " } else { "" }, name, g, ty(t))
+            }
+            Stmt::TypeFunction { export, name, func } => {
+                format!("{}type function {}{}", if *export { "export " } else { "" }, name, func_body(func))
+            }
+        }
+    }
+
+    fn type_name(n: &TypeName) -> String {
+        match &n.params {
+            None => n.name.clone(),
+            Some(ps) => format!("{}<{}>", n.name, join(ps, type_arg)),
+        }
+    }
+
+    pub fn type_arg(a: &TypeArg) -> String {
+        match a {
+            TypeArg::Type(t) => ty(t),
+            TypeArg::Pack(p) => pack(p),
+            TypeArg::Variadic(t) => format!("...{}", ty(t)),
+            TypeArg::GenericPack(n) => format!("{}...", n),
+        }
+    }
+
+    fn tail(t: &VariadicAnnotationPack) -> String {
+        match t {
+            VariadicAnnotationPack::Variadic(t) => format!("...{}", ty(t)),
+            VariadicAnnotationPack::GenericPack(n) => format!("{}...", n),
+        }
+    }
+
+    pub fn pack(p: &TypePack) -> String {
+        let mut v: Vec<String> = p.types.iter().map(ty).collect();
+        if let Some(t) = &p.tail {
+            v.push(tail(t));
+        }
+        format!("pack({})", v.join(", "))
+    }
+
+    pub fn ret_ty(r: &ReturnType) -> String {
+        match r {
+            ReturnType::Type(t) => ty(t),
+            ReturnType::Pack(p) => pack(p),
+            ReturnType::GenericPack(n) => format!("{}...", n),
+            ReturnType::Variadic(t) => format!("...{}", ty(t)),
+        }
+    }
+
+    fn access(a: &Option<Access>) -> &'static str {
+        match a {
+            None => "",
+            Some(Access::Read) => "read ",
+            Some(Access::Write) => "write ",
+        }
+    }
+
+    pub fn ty(t: &Type) -> String {
+        match t {
+            Type::Name(n) => type_name(n),
+            Type::Qualified { namespace, name } => format!("{}.{}", namespace, type_name(name)),
+            Type::True => "true".into(),
+            Type::False => "false".into(),
+            Type::Nil => "nil".into(),
+            Type::Str(b) => bytes(b),
+            Type::Array(t) => format!("{{{}}}", ty(t)),
+            Type::Table(items) => format!(
+                "{{{}}}",
+                join(items, |it| match it {
+                    TableTypeItem::Prop { access: a, name, ty: t } => format!("{}{}: {}", access(a), name, ty(t)),
+                    TableTypeItem::StrProp { access: a, key, ty: t } => format!("{}[{}]: {}", access(a), bytes(key), ty(t)),
+                    TableTypeItem::Indexer { access: a, key, value } =>
+                        format!("{}[{}]: {}", access(a), ty(key), ty(value)),
+                })
+            ),
+            Type::Typeof(e) => format!("typeof({})", expr(e)),
+            Type::Paren(t) => format!("P[{}]", ty(t)),
+            Type::Function(f) => {
+                let mut ps: Vec<String> = f
+                    .params
+                    .iter()
+                    .map(|(n, t)| match n {
+                        Some(n) => format!("{}: {}", n, ty(t)),
+                        None => ty(t),
+                    })
+                    .collect();
+                if let Some(v) = &f.variadic {
+                    ps.push(tail(v));
+                }
+                format!("fn{}({}) -> {}", generics(&f.generics), ps.join(", "), ret_ty(&f.ret))
+            }
+            Type::Optional(t) => format!("{}?", ty(t)),
+            Type::Union { leading, types } => {
+                format!("({}{})", if *leading { "| " } else { "" }, types.iter().map(ty).collect::<Vec<_>>().join(" | "))
+            }
+            Type::Intersection { leading, types } => {
+                format!("({}{})", if *leading { "& " } else { "" }, types.iter().map(ty).collect::<Vec<_>>().join(" & "))
+            }
+        }
+    }
+}
+
+#[cfg(test)]
+mod tests {
+    use super::dump;
+    use super::*;
+
+    fn pe(src: &str) -> String {
+        match parse_expr(src, Mode::Luau) {
+            Ok(e) => dump::expr(&e),
+            Err(e) => panic!("Luau parse_expr failed on {:?}: {}", src, e),
+        }
+    }
+
+    fn pe51(src: &str) -> String {
+        match parse_expr(src, Mode::Lua51) {
+            Ok(e) => dump::expr(&e),
+            Err(e) => panic!("5.1 parse_expr failed on {:?}: {}", src, e),
+        }
+    }
+
+    /// parses in Luau mode
+    fn ps(src: &str) -> String {
+        match parse(src, Mode::Luau) {
+            Ok(o) => dump::block(&o.block),
+            Err(e) => panic!("Luau parse failed on {:?}: {}", src, e),
+        }
+    }
+
+    /// parses in both modes, the trees must be equal
+    fn ps_both(src: &str) -> String {
+        let a = parse(src, Mode::Luau).unwrap_or_else(|e| panic!("Luau parse failed on {:?}: {}", src, e));
+        let b = parse(src, Mode::Lua51).unwrap_or_else(|e| panic!("5.1 parse failed on {:?}: {}", src, e));
+        assert_eq!(a.block, b.block, "{:?}", src);
+        assert!(a.type_spans.is_empty());
+        dump::block(&a.block)
+    }
+
+    fn bad(src: &str) {
+        assert!(parse(src, Mode::Luau).is_err(), "Luau should reject {:?}", src);
+    }
+
+    fn bad51(src: &str) {
+        assert!(parse(src, Mode::Lua51).is_err(), "5.1 should reject {:?}", src);
+    }
+
+    fn bad_both(src: &str) {
+        bad(src);
+        bad51(src);
+    }
+
+    // --------------------------------------------------------------------------- expressions
+
+    /// independent precedence table: (level, right-associative)
+    fn level(op: BinOp) -> (u8, bool) {
+        match op {
+            BinOp::Or => (1, false),
+            BinOp::And => (2, false),
+            BinOp::Lt | BinOp::Gt | BinOp::Le | BinOp::Ge | BinOp::Ne | BinOp::Eq => (3, false),
+            BinOp::Concat => (4, true),
+            BinOp::Add | BinOp::Sub => (5, false),
+            BinOp::Mul | BinOp::Div | BinOp::IDiv | BinOp::Mod => (6, false),
+            BinOp::Pow => (8, true),
+        }
+    }
+
+    #[test]
+    fn precedence_table_all_pairs() {
+        for op1 in BinOp::ALL {
+            for op2 in BinOp::ALL {
+                let src = format!("a {} b {} c", op1.symbol(), op2.symbol());
+                let (l1, r1) = level(op1);
+                let (l2, _) = level(op2);
+                let left_first = l1 > l2 || (l1 == l2 && !r1);
+                let expect = if left_first {
+                    format!("((a {} b) {} c)", op1.symbol(), op2.symbol())
+                } else {
+                    format!("(a {} (b {} c))", op1.symbol(), op2.symbol())
+                };
+                assert_eq!(pe(&src), expect, "{}", src);
+                if op1 != BinOp::IDiv && op2 != BinOp::IDiv {
+                    assert_eq!(pe51(&src), expect, "5.1: {}", src);
+                }
+            }
+        }
+    }
+
+    #[test]
+    fn precedence_three_operators() {
+        assert_eq!(pe("a or b and c < d .. e + f * g ^ h"), "(a or (b and (c < (d .. (e + (f * (g ^ h)))))))");
+        assert_eq!(pe("a ^ b * c + d .. e < f and g or h"), "(((((((a ^ b) * c) + d) .. e) < f) and g) or h)");
+        assert_eq!(pe("a .. b .. c .. d"), "(a .. (b .. (c .. d)))");
+        assert_eq!(pe("a ^ b ^ c ^ d"), "(a ^ (b ^ (c ^ d)))");
+        assert_eq!(pe("a - b - c - d"), "(((a - b) - c) - d)");
+        assert_eq!(pe("a + b .. c + d .. e"), "((a + b) .. ((c + d) .. e))");
+        assert_eq!(pe("a .. b .. c == d .. e"), "((a .. (b .. c)) == (d .. e))");
+        assert_eq!(pe("a .. b ^ c .. -d .. e or f .. g"), "((a .. ((b ^ c) .. ((-d) .. e))) or (f .. g))");
+        assert_eq!(pe("a .. b and c .. d .. e"), "((a .. b) and (c .. (d .. e)))");
+        assert_eq!(pe("-a .. b"), "((-a) .. b)");
+        assert_eq!(pe("2 ^ a .. b"), "((2 ^ a) .. b)");
+        assert_eq!(pe("a .. b :: T .. c"), "(a .. ((b :: T) .. c))");
+        assert_eq!(pe("a == b ~= c"), "((a == b) ~= c)");
+        assert_eq!(pe("a // b / c % d"), "(((a // b) / c) % d)");
+        assert_eq!(pe("1 + 2 * 3 - 4 / 5"), "((1 + (2 * 3)) - (4 / 5))");
+    }
+
+    #[test]
+    fn unary_operators() {
+        assert_eq!(pe("-x^2"), "(-(x ^ 2))");
+        assert_eq!(pe("2^-3"), "(2 ^ (-3))");
+        assert_eq!(pe("2^-3^4"), "(2 ^ (-(3 ^ 4)))");
+        assert_eq!(pe("-a^-b^c"), "(-(a ^ (-(b ^ c))))");
+        assert_eq!(pe("not a == b"), "((not a) == b)");
+        assert_eq!(pe("not a and b"), "((not a) and b)");
+        assert_eq!(pe("#a .. b"), "((#a) .. b)");
+        assert_eq!(pe("-a * b"), "((-a) * b)");
+        assert_eq!(pe("a * -b"), "(a * (-b))");
+        assert_eq!(pe("- - a"), "(-(-a))");
+        assert_eq!(pe("not not a"), "(not (not a))");
+        assert_eq!(pe("-#not a"), "(-(#(not a)))");
+        assert_eq!(pe("#t[1]"), "(#t[1])");
+        assert_eq!(pe("-f(x).y"), "(-f(x).y)");
+        assert_eq!(pe("a - -b"), "(a - (-b))");
+        assert_eq!(pe("-2 ^ 2"), "(-(2 ^ 2))");
+        assert_eq!(pe("not a ^ b"), "(not (a ^ b))");
+        assert_eq!(pe("#a ^ b"), "(#(a ^ b))");
+        // unary binds tighter than every binary operator except ^
+        for op in BinOp::ALL {
+            for (u, us) in [("-", "-"), ("not ", "not "), ("#", "#")] {
+                let src = format!("{}a {} b", u, op.symbol());
+                let expect = if op == BinOp::Pow {
+                    format!("({}(a ^ b))", us)
+                } else {
+                    format!("(({}a) {} b)", us, op.symbol())
+                };
+                assert_eq!(pe(&src), expect, "{}", src);
+                let src = format!("a {} {}b", op.symbol(), u);
+                assert_eq!(pe(&src), format!("(a {} ({}b))", op.symbol(), us), "{}", src);
+            }
+        }
+        // numbers are not folded with the sign
+        assert_eq!(pe("-1"), "(-1)");
+        assert_eq!(pe("- 0"), "(-0)");
+        match parse_expr("-0", Mode::Luau).unwrap() {
+            Expr::Unary(UnOp::Neg, x) => assert_eq!(*x, Expr::num(0.0)),
+            other => panic!("{:?}", other),
+        }
+    }
+
+    #[test]
+    fn literals() {
+        assert_eq!(pe("nil"), "nil");
+        assert_eq!(pe("true"), "true");
+        assert_eq!(pe("false"), "false");
+        assert_eq!(pe("..."), "...");
+        assert_eq!(pe("0x10"), "16");
+        assert_eq!(pe("1e2"), "100");
+        assert_eq!(pe(".5"), "0.5");
+        assert_eq!(pe("3."), "3");
+        assert_eq!(pe("0b11"), "3");
+        assert_eq!(pe("1_000"), "1000");
+        assert_eq!(pe(r#""a\n\65""#), "\"a\\nA\"");
+        assert_eq!(pe("'x'"), "\"x\"");
+        assert_eq!(pe("[[x]]"), "\"x\"");
+        assert_eq!(pe("[==[\nx]]]==]"), "\"x]]\"");
+        assert_eq!(pe(r#""\x41\u{42}\z   C""#), "\"ABC\"");
+        match parse_expr("0x1F", Mode::Lua51).unwrap() {
+            Expr::Number { raw, value } => {
+                assert_eq!(raw, "0x1F");
+                assert_eq!(value, 31.0);
+            }
+            other => panic!("{:?}", other),
+        }
+        match parse_expr("'a\\tb'", Mode::Lua51).unwrap() {
+            Expr::Str { raw, value } => {
+                assert_eq!(raw, "'a\\tb'");
+                assert_eq!(value, b"a\tb".to_vec());
+            }
+            other => panic!("{:?}", other),
+        }
+    }
+
+    #[test]
+    fn suffixed_expressions() {
+        assert_eq!(pe("a.b.c"), "a.b.c");
+        assert_eq!(pe("a[b][c]"), "a[b][c]");
+        assert_eq!(pe("a.b[c].d"), "a.b[c].d");
+        assert_eq!(pe("f()"), "f()");
+        assert_eq!(pe("f(a, b)(c)"), "f(a, b)(c)");
+        assert_eq!(pe("f'x'"), "f!s(\"x\")");
+        assert_eq!(pe("f\"x\""), "f!s(\"x\")");
+        assert_eq!(pe("f[[x]]"), "f!s(\"x\")");
+        assert_eq!(pe("f{1, 2}"), "f!t({1, 2})");
+        assert_eq!(pe("f{}{}"), "f!t({})!t({})");
+        assert_eq!(pe("a:b()"), "a:b()");
+        assert_eq!(pe("a:b(1):c'x':d{}"), "a:b(1):c!s(\"x\"):d!t({})");
+        assert_eq!(pe("a.b:c(d).e"), "a.b:c(d).e");
+        assert_eq!(pe("(a)"), "P[a]");
+        assert_eq!(pe("((a))"), "P[P[a]]");
+        assert_eq!(pe("(a).b"), "P[a].b");
+        assert_eq!(pe("(f())"), "P[f()]");
+        assert_eq!(pe("(...)"), "P[...]");
+        assert_eq!(pe("(a + b) * c"), "(P[(a + b)] * c)");
+        assert_eq!(pe("('x'):rep(3)"), "P[\"x\"]:rep(3)");
+        assert_eq!(pe("(function() end)()"), "P[function() {}]()");
+        assert_eq!(pe("a.b.c + d[e]"), "(a.b.c + d[e])");
+        assert_eq!(pe("f(...)"), "f(...)");
+        assert_eq!(pe("f(function() end, {})"), "f(function() {}, {})");
+        // only Name and ( expr ) can be suffixed
+        for s in ["'x':rep(3)", "1.x", "{}.x", "nil()", "function() end()", "#a.b.c.()", "a.'x'", "a:b", "a:b.c", "a.", "a[", "a[]", "f(", "f(a,)", "(a", "()", "a.end", "a:1()"] {
+            assert!(parse_expr(s, Mode::Luau).is_err(), "{:?}", s);
+            assert!(parse_expr(s, Mode::Lua51).is_err(), "{:?}", s);
+        }
+    }
+
+    #[test]
+    fn table_constructors() {
+        assert_eq!(pe("{}"), "{}");
+        assert_eq!(pe("{1, 2; 3}"), "{1, 2, 3}");
+        assert_eq!(pe("{1, 2,}"), "{1, 2}");
+        assert_eq!(pe("{1;}"), "{1}");
+        assert_eq!(pe("{a = 1, [b] = 2, c}"), "{a=1, [b]=2, c}");
+        assert_eq!(pe("{a == 1}"), "{(a == 1)}");
+        assert_eq!(pe("{[1] = {x = {}}}"), "{[1]={x={}}}");
+        assert_eq!(pe("{f(), ...}"), "{f(), ...}");
+        assert_eq!(pe("{[ [[k]] ] = v}"), "{[\"k\"]=v}");
+        assert_eq!(pe("{a.b, a = b.c}"), "{a.b, a=b.c}");
+        assert_eq!(pe("{type = 1, continue = 2}"), "{type=1, continue=2}");
+        for s in ["{,}", "{;}", "{1,,2}", "{a = }", "{[a] 1}", "{[a]}", "{1 2}", "{", "{1", "{end = 1}", "{a = 1 = 2}"] {
+            assert!(parse_expr(s, Mode::Luau).is_err(), "{:?}", s);
+            assert!(parse_expr(s, Mode::Lua51).is_err(), "{:?}", s);
+        }
+    }
+
+    #[test]
+    fn function_expressions() {
+        assert_eq!(pe("function() end"), "function() {}");
+        assert_eq!(pe("function(a, b, ...) return a end"), "function(a, b, ...) {return a}");
+        assert_eq!(pe("function(...) return ... end"), "function(...) {return ...}");
+        assert_eq!(pe51("function(a) local b = a; return b end"), "function(a) {local b = a; return b}");
+        assert_eq!(
+            pe("function<T, U...>(a: T, ...: U...): (T, U...) end"),
+            "function<T, U...>(a: T, ...: U...): pack(T, U...) {}"
+        );
+        assert_eq!(pe("function(...: number): ...number end"), "function(...: number): ...number {}");
+        assert_eq!(pe("function(): () end"), "function(): pack() {}");
+        assert_eq!(pe("function(): T... end"), "function(): T... {}");
+        assert_eq!(pe("@native function() end"), "@native function() {}");
+        assert_eq!(pe("@a @b function() end"), "@a @b function() {}");
+        assert_eq!(
+            pe("@[a, b(1, 'x'), c 's', d {k = 1}] function() end"),
+            "@[a, b(1, \"x\"), c \"s\", d {k=1}] function() {}"
+        );
+        for s in [
+            "function(a,) end",
+            "function(..., a) end",
+            "function(a b) end",
+            "function() ",
+            "function end",
+            "function(1) end",
+            "function f() end",
+            "function(a.b) end",
+            "@ native function() end",
+            "@native 1",
+            "@[] function() end",
+            "@native",
+        ] {
+            assert!(parse_expr(s, Mode::Luau).is_err(), "{:?}", s);
+        }
+        // `...` only inside vararg functions
+        assert!(parse_expr("function() return ... end", Mode::Luau).is_err());
+        assert!(parse_expr("function() return ... end", Mode::Lua51).is_err());
+        assert!(parse_expr("function(...) return function() return ... end end", Mode::Luau).is_err());
+        assert!(parse_expr("function(...) return function(...) return ... end end", Mode::Luau).is_ok());
+        assert!(parse("return ...", Mode::Lua51).is_ok());
+        let loose = ParseOptions { check_vararg_context: false, ..Default::default() };
+        assert!(parse_with_options("function f() return ... end", Mode::Luau, loose).is_ok());
+    }
+
+    #[test]
+    fn luau_expressions() {
+        assert_eq!(pe("if a then b else c"), "if(a -> b; else c)");
+        assert_eq!(pe("if a then b elseif c then d elseif e then f else g"), "if(a -> b; c -> d; e -> f; else g)");
+        assert_eq!(pe("if a then b else c + 1"), "if(a -> b; else (c + 1))");
+        assert_eq!(pe("1 + if a then b else c"), "(1 + if(a -> b; else c))");
+        assert_eq!(pe("if a then if b then c else d else e"), "if(a -> if(b -> c; else d); else e)");
+        assert_eq!(pe("if a then b else if c then d else e"), "if(a -> b; else if(c -> d; else e))");
+        assert_eq!(pe("f(if a then b else c, d)"), "f(if(a -> b; else c), d)");
+        assert_eq!(pe("(if a then b else c).x"), "P[if(a -> b; else c)].x");
+        for s in ["if a then b", "if a then b end", "if a then b else c end", "if a b else c", "if then a else b", "if a then b elseif c else d"] {
+            assert!(parse_expr(s, Mode::Luau).is_err(), "{:?}", s);
+        }
+        // casts
+        assert_eq!(pe("a :: T"), "(a :: T)");
+        assert_eq!(pe("-x :: T"), "(-(x :: T))");
+        assert_eq!(pe("a ^ b :: T"), "(a ^ (b :: T))");
+        assert_eq!(pe("a :: T ^ b"), "((a :: T) ^ b)");
+        assert_eq!(pe("a + b :: T"), "(a + (b :: T))");
+        assert_eq!(pe("(a + b) :: T"), "(P[(a + b)] :: T)");
+        assert_eq!(pe("a.b.c :: T"), "(a.b.c :: T)");
+        assert_eq!(pe("f() :: T"), "(f() :: T)");
+        assert_eq!(pe("a :: T | U"), "(a :: (T | U))");
+        assert_eq!(pe("a :: T?"), "(a :: T?)");
+        assert_eq!(pe("a :: T == b"), "((a :: T) == b)");
+        assert_eq!(pe("a :: T and b :: U"), "((a :: T) and (b :: U))");
+        assert_eq!(pe("{} :: {number}"), "({} :: {number})");
+        assert_eq!(pe("nil :: any"), "(nil :: any)");
+        assert_eq!(pe("1 :: any"), "(1 :: any)");
+        assert_eq!(pe("(a :: any) :: T"), "(P[(a :: any)] :: T)");
+        assert_eq!(pe("if a then b else c :: T"), "if(a -> b; else (c :: T))");
+        assert_eq!(pe("function() end :: T"), "(function() {} :: T)");
+        // only one cast per simple expression, as in the reference parser
+        assert!(parse_expr("a :: T :: U", Mode::Luau).is_err());
+        assert!(parse_expr("a ::", Mode::Luau).is_err());
+        // instantiation
+        assert_eq!(pe("f<<T>>()"), "f<<T>>()");
+        assert_eq!(pe("f<<T, U>>(a)"), "f<<T, U>>(a)");
+        assert_eq!(pe("f<<>>()"), "f<<>>()");
+        assert_eq!(pe("a.b<<T>>(c).d"), "a.b<<T>>(c).d");
+        assert_eq!(pe("f<<Foo<Bar>>>()"), "f<<Foo<Bar>>>()");
+        assert_eq!(pe("f<<Foo<Bar<Baz>>>>()"), "f<<Foo<Bar<Baz>>>>()");
+        assert_eq!(pe("f<<T..., ...number, (A, B), (A) -> B>>()"), "f<<T..., ...number, pack(A, B), fn(A) -> B>>()");
+        assert_eq!(pe("f<<T>>"), "f<<T>>");
+        assert_eq!(pe("f<<T>>.x<<U>>'s'"), "f<<T>>.x<<U>>!s(\"s\")");
+        assert_eq!(pe("f < < T > > ()"), "f<<T>>()");
+        assert_eq!(pe("a < b"), "(a < b)");
+        assert_eq!(pe("a < b > c"), "((a < b) > c)");
+        assert!(parse_expr("f<<T>()", Mode::Luau).is_err());
+        assert!(parse_expr("f<<T", Mode::Luau).is_err());
+        assert!(parse_expr("a:b<<T>>()", Mode::Luau).is_err()); // not representable in ast.rs
+    }
+
+    #[test]
+    fn interpolated_strings() {
+        assert_eq!(pe("``"), "interp[]");
+        assert_eq!(pe("`abc`"), "interp[\"abc\"]");
+        assert_eq!(pe("`a{b}c`"), "interp[\"a\", b, \"c\"]");
+        assert_eq!(pe("`{b}`"), "interp[b]");
+        assert_eq!(pe("`{a}{b}`"), "interp[a, b]");
+        assert_eq!(pe("`{a} {b}`"), "interp[a, \" \", b]");
+        assert_eq!(pe("`x{1 + 2}y{f()}`"), "interp[\"x\", (1 + 2), \"y\", f()]");
+        assert_eq!(pe("`a{ {1, 2} }b`"), "interp[\"a\", {1, 2}, \"b\"]");
+        assert_eq!(pe("`a{`b{c}d`}e`"), "interp[\"a\", interp[\"b\", c, \"d\"], \"e\"]");
+        assert_eq!(pe(r"`\{\`\n\x41\u{42}`"), "interp[\"{`\\nAB\"]");
+        assert_eq!(pe("`a` .. `b`"), "(interp[\"a\"] .. interp[\"b\"])");
+        assert_eq!(pe("f(`a`)"), "f(interp[\"a\"])");
+        assert_eq!(pe("`{if a then b else c}`"), "interp[if(a -> b; else c)]");
+        assert_eq!(pe("`{function() return `{1}` end}`"), "interp[function() {return interp[1]}]");
+        assert_eq!(pe("`{a :: T}`"), "interp[(a :: T)]");
+        for s in ["`{}`", "`a{}b`", "`{a b}`", "`{a}{}`", "f`a`", "`a`.x", "`a`:f()", "`{a,b}`"] {
+            assert!(parse_expr(s, Mode::Luau).is_err(), "{:?}", s);
+        }
+        assert!(parse("f`a`", Mode::Luau).is_err());
+    }
+
+    // ---------------------------------------------------------------------------- statements
+
+    #[test]
+    fn statements_lua51_and_luau() {
+        assert_eq!(ps_both(""), "");
+        assert_eq!(ps_both("  \n -- nothing\n"), "");
+        assert_eq!(ps_both("local a"), "local a");
+        assert_eq!(ps_both("local a, b, c"), "local a, b, c");
+        assert_eq!(ps_both("local a = 1"), "local a = 1");
+        assert_eq!(ps_both("local a, b = f()"), "local a, b = f()");
+        assert_eq!(ps_both("local a = 1, 2, 3"), "local a = 1, 2, 3");
+        assert_eq!(ps_both("a = 1"), "a = 1");
+        assert_eq!(ps_both("a, b.c, d[e] = 1, 2"), "a, b.c, d[e] = 1, 2");
+        assert_eq!(ps_both("a.b.c = d"), "a.b.c = d");
+        assert_eq!(ps_both("f().x = 1"), "f().x = 1");
+        assert_eq!(ps_both("(a).x = 1"), "P[a].x = 1");
+        assert_eq!(ps_both("a:b().c = 1"), "a:b().c = 1");
+        assert_eq!(ps_both("f()"), "call f()");
+        assert_eq!(ps_both("a.b:c(1)"), "call a.b:c(1)");
+        assert_eq!(ps_both("f 'x'"), "call f!s(\"x\")");
+        assert_eq!(ps_both("f{}"), "call f!t({})");
+        assert_eq!(ps_both("(f)()"), "call P[f]()");
+        assert_eq!(ps_both("f()()"), "call f()()");
+        assert_eq!(ps_both("do end"), "do {}");
+        assert_eq!(ps_both("do local a; a = 1 end"), "do {local a; a = 1}");
+        assert_eq!(ps_both("while a do b() end"), "while a {call b()}");
+        assert_eq!(ps_both("repeat a() until b"), "repeat {call a()} until b");
+        assert_eq!(ps_both("repeat local x = 1 until x == 1"), "repeat {local x = 1} until (x == 1)");
+        assert_eq!(ps_both("if a then end"), "if a {}");
+        assert_eq!(ps_both("if a then b() else c() end"), "if a {call b()} else {call c()}");
+        assert_eq!(
+            ps_both("if a then b() elseif c then d() elseif e then else f() end"),
+            "if a {call b()} elseif c {call d()} elseif e {} else {call f()}"
+        );
+        assert_eq!(ps_both("if a then if b then end end"), "if a {if b {}}");
+        assert_eq!(ps_both("if a then else if b then end end"), "if a {} else {if b {}}");
+        assert_eq!(ps_both("for i = 1, 2 do end"), "for i = 1, 2 {}");
+        assert_eq!(ps_both("for i = a, b, c do f(i) end"), "for i = a, b, c {call f(i)}");
+        assert_eq!(ps_both("for k in t do end"), "for k in t {}");
+        assert_eq!(ps_both("for k, v in pairs(t) do end"), "for k, v in pairs(t) {}");
+        assert_eq!(ps_both("for a, b, c in f, s, i do end"), "for a, b, c in f, s, i {}");
+        assert_eq!(ps_both("function f() end"), "function f() {}");
+        assert_eq!(ps_both("function a.b.c(x) end"), "function a.b.c(x) {}");
+        assert_eq!(ps_both("function a.b:c(x, ...) end"), "function a.b:c(x, ...) {}");
+        assert_eq!(ps_both("function a:c() return self end"), "function a:c() {return self}");
+        assert_eq!(ps_both("local function f(a) return f end"), "local function f(a) {return f}");
+        assert_eq!(ps_both("return"), "return");
+        assert_eq!(ps_both("return;"), "return");
+        assert_eq!(ps_both("return 1"), "return 1");
+        assert_eq!(ps_both("return 1, 2;"), "return 1, 2");
+        assert_eq!(ps_both("return f()"), "return f()");
+        assert_eq!(ps_both("return (f())"), "return P[f()]");
+        assert_eq!(ps_both("while true do break end"), "while true {break}");
+        assert_eq!(ps_both("while true do break; end"), "while true {break}");
+        assert_eq!(ps_both("repeat if a then break end until b"), "repeat {if a {break}} until b");
+        assert_eq!(ps_both("for i = 1, 2 do do break end end"), "for i = 1, 2 {do {break}}");
+        assert_eq!(ps_both("a = 1; b = 2;c = 3"), "a = 1; b = 2; c = 3");
+        assert_eq!(ps_both("a = 1 b = 2"), "a = 1; b = 2");
+        assert_eq!(ps_both("local a = b c = d"), "local a = b; c = d");
+        assert_eq!(ps_both("f() g()"), "call f(); call g()");
+    }
+
+    #[test]
+    fn statement_errors_both_modes() {
+        for s in [
+            ";",
+            ";;",
+            "a = 1;;",
+            "do ; end",
+            "return 1 a = 2",
+            "return; a = 2",
+            "return return",
+            "do return end a = 1 end",
+            "while true do break a = 1 end",
+            "break",
+            "function f() break end",
+            "while true do function f() break end end",
+            "local",
+            "local 1",
+            "local a =",
+            "local a, = 1",
+            "local a.b = 1",
+            "local function a.b() end",
+            "local function() end",
+            "a",
+            "a.b",
+            "a +",
+            "a + b",
+            "(a)",
+            "a, b",
+            "a, b()",
+            "a = ",
+            "f() = 1",
+            "a:b() = 1",
+            "(a) = 1",
+            "a, f() = 1, 2",
+            "a.b:c = 1",
+            "1 = a",
+            "'x' = a",
+            "nil = a",
+            "do",
+            "do end end",
+            "end",
+            "if a then",
+            "if a end",
+            "if a then else else end",
+            "if a then elseif end",
+            "if a then else elseif b then end",
+            "while a end",
+            "while do end",
+            "while a do",
+            "repeat until",
+            "repeat",
+            "for do end",
+            "for i do end",
+            "for i = 1 do end",
+            "for i = 1, 2, 3, 4 do end",
+            "for i, j = 1, 2 do end",
+            "for i in do end",
+            "for 1 in x do end",
+            "for a.b in x do end",
+            "for i = 1, 2 end",
+            "function() end",
+            "function f",
+            "function f(",
+            "function f() ",
+            "function f.() end",
+            "function f:a.b() end",
+            "function f:a:b() end",
+            "function f[1]() end",
+            "function (f)() end",
+            "until a",
+            "else",
+            "elseif a then",
+            "then",
+            "in",
+            "and",
+            "not",
+            "x = = 1",
+            "x = 1 +",
+            "x = (1",
+            "x = 1)",
+            "x = }",
+            "x = ]",
+            "x = 1 2",
+            "goto = ",
+            "return 1,",
+            "f(,)",
+            "x = a b c",
+            "x = function",
+        ] {
+            bad_both(s);
+        }
+        // relaxed loop-context check
+        let loose = ParseOptions { check_loop_context: false, ..Default::default() };
+        assert!(parse_with_options("break", Mode::Lua51, loose).is_ok());
+        assert!(parse_with_options("continue", Mode::Luau, loose).is_ok());
+        assert!(parse_with_options("continue", Mode::Lua51, loose).is_err());
+    }
+
+    #[test]
+    fn error_positions() {
+        let e = parse("local a = 1\nlocal b = = 2", Mode::Lua51).unwrap_err();
+        assert_eq!((e.line, e.pos), (2, 22));
+        let e = parse("x = 1\n\n  ?", Mode::Lua51).unwrap_err();
+        assert_eq!((e.line, e.pos), (3, 9));
+        let e = parse("if a then", Mode::Luau).unwrap_err();
+        assert_eq!((e.line, e.pos), (1, 9));
+        assert!(e.msg.contains("end"), "{}", e.msg);
+        let e = parse("x = \"abc", Mode::Luau).unwrap_err();
+        assert_eq!((e.line, e.pos), (1, 4));
+    }
+
+    #[test]
+    fn luau_statements() {
+        assert_eq!(ps("a += 1"), "a += 1");
+        assert_eq!(ps("a.b -= c"), "a.b -= c");
+        assert_eq!(ps("a[i] *= 2"), "a[i] *= 2");
+        assert_eq!(ps("a /= 2 a //= 2 a %= 2 a ^= 2 a ..= 'x'"), "a /= 2; a //= 2; a %= 2; a ^= 2; a ..= \"x\"");
+        assert_eq!(ps("a += b + c"), "a += (b + c)");
+        assert_eq!(ps("f().x += 1"), "f().x += 1");
+        for s in ["a, b += 1", "f() += 1", "(a) += 1", "a += 1, 2", "a +=", "a + = 1", "local a += 1", "a =+ 1 +"] {
+            bad(s);
+        }
+        assert_eq!(ps("while a do continue end"), "while a {continue}");
+        assert_eq!(ps("while a do continue; end"), "while a {continue}");
+        assert_eq!(ps("for i = 1, 2 do if i then continue end f() end"), "for i = 1, 2 {if i {continue}; call f()}");
+        assert_eq!(ps("repeat continue until a"), "repeat {continue} until a");
+        assert_eq!(ps("for k in t do do continue end end"), "for k in t {do {continue}}");
+        bad("continue");
+        bad("function f() continue end");
+        bad("while a do function f() continue end end");
+        bad("while a do continue f() end");
+        bad("while a do continue; f() end");
+        // typed locals and loops
+        assert_eq!(ps("local a: number = 1"), "local a: number = 1");
+        assert_eq!(ps("local a: number, b: string? = 1"), "local a: number, b: string? = 1");
+        assert_eq!(ps("local a: number"), "local a: number");
+        assert_eq!(ps("for i: number = 1, 2 do end"), "for i: number = 1, 2 {}");
+        assert_eq!(ps("for k: string, v: {number} in t do end"), "for k: string, v: {number} in t {}");
+        assert_eq!(
+            ps("function f<T>(a: T, b: number?, ...: T): T? end"),
+            "function f<T>(a: T, b: number?, ...: T): T? {}"
+        );
+        assert_eq!(ps("function a.b:c<T...>(...: T...): ...T end"), "function a.b:c<T...>(...: T...): ...T {}");
+        assert_eq!(ps("local function f<A, B>(a: A): (A, B) end"), "local function f<A, B>(a: A): pack(A, B) {}");
+        // attributes
+        assert_eq!(ps("@native function f() end"), "@native function f() {}");
+        assert_eq!(ps("@native @checked local function f() end"), "@native @checked local function f() {}");
+        assert_eq!(ps("@[deprecated {use = 'g'}]\nfunction f() end"), "@[deprecated {use=\"g\"}] function f() {}");
+        assert_eq!(ps("@native\nfunction a.b:c() end"), "@native function a.b:c() {}");
+        assert_eq!(ps("local f = @native function() end"), "local f = @native function() {}");
+        bad("@native local x = 1");
+        bad("@native x = 1");
+        bad("@native return");
+        bad("@native");
+        // const
+        assert_eq!(ps("const a = 1"), "const a = 1");
+        assert_eq!(ps("const a: number, b = 1, 2"), "const a: number, b = 1, 2");
+        assert_eq!(ps("const function f(a) return a end"), "const function f(a) {return a}");
+        bad("const a");
+        bad("const a.b = 1");
+        bad("const 1 = 1");
+        // type declarations
+        assert_eq!(ps("type A = number"), "type A = number");
+        assert_eq!(ps("export type A = number"), "export type A = number");
+        assert_eq!(ps("type A<T> = {T}"), "type A<T> = {T}");
+        assert_eq!(
+            ps("type A<T, U = string, V... = ...number> = (T, U) -> V..."),
+            "type A<T, U = string, V... = ...number> = fn(T, U) -> V..."
+        );
+        assert_eq!(ps("type A<T... = (number, string)> = B<T...>"), "type A<T... = pack(number, string)> = B<T...>");
+        assert_eq!(ps("type A<T... = ()> = B"), "type A<T... = pack()> = B");
+        assert_eq!(ps("type A<T..., U... = T...> = B"), "type A<T..., U... = T...> = B");
+        assert_eq!(ps("type A = B type C = D"), "type A = B; type C = D");
+        assert_eq!(ps("type A = B\nlocal x = 1"), "type A = B; local x = 1");
+        assert_eq!(ps("type function f(a) return a end"), "type function f(a) {return a}");
+        assert_eq!(ps("export type function f(...) return ... end"), "export type function f(...) {return ...}");
+        assert_eq!(ps("type\nA\n=\nnumber"), "type A = number");
+        for s in [
+            "type A",
+            "type A =",
+            "type = number =",
+            "type A<> = B",
+            "type A<T,> = B",
+            "type A<T = number, U> = B",
+            "type A<T..., U> = B",
+            "type A<T... = number> = B",
+            "type A<T = ...number> = B",
+            "type A<T... = ...number, U...> = B",
+            "export A = B",
+            "export type",
+            "export function f() end",
+            "export local x = 1",
+            "type A.B = C",
+            "type 'a' = B",
+            "type function() end",
+            "type function f end",
+            "function f<T = number>() end",
+        ] {
+            bad(s);
+        }
+    }
+
+    #[test]
+    fn contextual_keywords_are_plain_identifiers() {
+        let src = "local type = 1; type = 2; continue = 3; export = 1";
+        assert_eq!(ps_both(src), "local type = 1; type = 2; continue = 3; export = 1");
+        assert_eq!(ps_both("type(x)"), "call type(x)");
+        assert_eq!(ps_both("continue()"), "call continue()");
+        assert_eq!(ps_both("local t = type(x) == 'string'"), "local t = (type(x) == \"string\")");
+        assert_eq!(ps_both("type.x = 1 export.y = 2 const.z = 3"), "type.x = 1; export.y = 2; const.z = 3");
+        assert_eq!(ps_both("continue.x = 1"), "continue.x = 1");
+        assert_eq!(ps_both("continue:f()"), "call continue:f()");
+        assert_eq!(ps_both("continue 'x'"), "call continue!s(\"x\")");
+        assert_eq!(ps_both("continue{}"), "call continue!t({})");
+        assert_eq!(ps_both("continue[1] = 2"), "continue[1] = 2");
+        assert_eq!(ps_both("continue, type = 1, 2"), "continue, type = 1, 2");
+        assert_eq!(ps_both("local continue, export, const, typeof, read, write"), "local continue, export, const, typeof, read, write");
+        assert_eq!(ps_both("const = 1 const()"), "const = 1; call const()");
+        assert_eq!(ps_both("typeof(x)"), "call typeof(x)");
+        assert_eq!(ps_both("local function type() end function export() end"), "local function type() {}; function export() {}");
+        assert_eq!(ps_both("function type.continue:export(const) end"), "function type.continue:export(const) {}");
+        assert_eq!(ps_both("for type, continue in export do end"), "for type, continue in export {}");
+        assert_eq!(ps_both("x = {type = type, export = continue}"), "x = {type=type, export=continue}");
+        assert_eq!(ps("continue += 1 type ..= 'x'"), "continue += 1; type ..= \"x\"");
+        assert_eq!(ps("while true do continue = 1 end"), "while true {continue = 1}");
+        // a call on the next line wins over the statement reading, as in the reference parser
+        assert_eq!(ps("while true do continue\n(f)() end"), "while true {call continue(f)()}");
+        assert_eq!(ps("type T = typeof(type)"), "type T = typeof(type)");
+        assert_eq!(ps("type type = type"), "type type = type");
+        assert_eq!(ps("type export = number export type type = export"), "type export = number; export type type = export");
+        assert_eq!(ps("type continue = {read: number, write: string}"), "type continue = {read: number, write: string}");
+        bad("local x: typeof = 1"); // `typeof` in a type must be followed by `(`
+    }
+}
+
+#[cfg(test)]
+mod tests_types {
+    use super::dump;
+    use super::*;
+
+    /// parses `type X = <src>` and dumps the type
+    fn pt(src: &str) -> String {
+        let full = format!("type X = {}", src);
+        match parse(&full, Mode::Luau) {
+            Ok(o) => match &o.block.stmts[..] {
+                [Stmt::TypeDecl { ty, .. }] => dump::ty(ty),
+                other => panic!("{:?} parsed to {:?}", full, other),
+            },
+            Err(e) => panic!("parse failed on {:?}: {}", full, e),
+        }
+    }
+
+    fn bad_type(src: &str) {
+        let full = format!("type X = {}", src);
+        assert!(parse(&full, Mode::Luau).is_err(), "should reject {:?}", full);
+    }
+
+    fn ps(src: &str) -> String {
+        match parse(src, Mode::Luau) {
+            Ok(o) => dump::block(&o.block),
+            Err(e) => panic!("Luau parse failed on {:?}: {}", src, e),
+        }
+    }
+
+    #[test]
+    fn simple_types() {
+        assert_eq!(pt("number"), "number");
+        assert_eq!(pt("nil"), "nil");
+        assert_eq!(pt("true"), "true");
+        assert_eq!(pt("false"), "false");
+        assert_eq!(pt("'a'"), "\"a\"");
+        assert_eq!(pt("\"a\\n\""), "\"a\\n\"");
+        assert_eq!(pt("[[a]]"), "\"a\"");
+        assert_eq!(pt("ns.T"), "ns.T");
+        assert_eq!(pt("ns.T<number>"), "ns.T<number>");
+        assert_eq!(pt("T<number>"), "T<number>");
+        assert_eq!(pt("T<>"), "T<>");
+        assert_eq!(pt("T<A, B, C>"), "T<A, B, C>");
+        assert_eq!(pt("T<A<B<C>>>"), "T<A<B<C>>>");
+        assert_eq!(pt("T<A<B>, C<D>>"), "T<A<B>, C<D>>");
+        assert_eq!(pt("T<...number>"), "T<...number>");
+        assert_eq!(pt("T<U...>"), "T<U...>");
+        assert_eq!(pt("T<(A, B)>"), "T<pack(A, B)>");
+        assert_eq!(pt("T<()>"), "T<pack()>");
+        assert_eq!(pt("T<(A, ...B)>"), "T<pack(A, ...B)>");
+        assert_eq!(pt("T<(A, B...)>"), "T<pack(A, B...)>");
+        assert_eq!(pt("T<(...A)>"), "T<pack(...A)>");
+        assert_eq!(pt("T<(A)>"), "T<pack(A)>"); // single-element pack, as in the reference parser
+        assert_eq!(pt("T<(A)?>"), "T<P[A]?>");
+        assert_eq!(pt("T<(A) | B>"), "T<(P[A] | B)>");
+        assert_eq!(pt("T<(A) -> B>"), "T<fn(A) -> B>");
+        assert_eq!(pt("T<(A) -> B, C>"), "T<fn(A) -> B, C>");
+        assert_eq!(pt("T<() -> ()>"), "T<fn() -> pack()>");
+        assert_eq!(pt("T<A | B, C?>"), "T<(A | B), C?>");
+        assert_eq!(pt("T<{A}, {a: B}>"), "T<{A}, {a: B}>");
+        assert_eq!(pt("T<'s', true, nil>"), "T<\"s\", true, nil>");
+        assert_eq!(pt("typeof(x)"), "typeof(x)");
+        assert_eq!(pt("typeof(a.b + 1)"), "typeof((a.b + 1))");
+        assert_eq!(pt("typeof(f(function(a: number) end))"), "typeof(f(function(a: number) {}))");
+        assert_eq!(pt("typeof({})"), "typeof({})");
+        assert_eq!(pt("typeof.T"), "typeof.T");
+        assert_eq!(pt("(A)"), "P[A]");
+        assert_eq!(pt("((A))"), "P[P[A]]");
+        assert_eq!(pt("(A | B)"), "P[(A | B)]");
+        for s in [
+            "", "1", "a.b.c", "ns.", "T<", "T<A", "T<A,>", "T<,>", "typeof", "typeof x", "typeof()", "typeof(x", "()", "(A, B)", "(A",
+            "function", "function() end", "...", "...T", "T...", "`a`", "-1", "not T", "end", "(...A)", "ns.'x'", "T<A>>", "#T",
+        ] {
+            bad_type(s);
+        }
+    }
+
+    #[test]
+    fn table_types() {
+        assert_eq!(pt("{}"), "{}");
+        assert_eq!(pt("{number}"), "{number}");
+        assert_eq!(pt("{ {number} }"), "{{number}}");
+        assert_eq!(pt("{number?}"), "{number?}");
+        assert_eq!(pt("{A | B}"), "{(A | B)}");
+        assert_eq!(pt("{(A) -> B}"), "{fn(A) -> B}");
+        assert_eq!(pt("{T<U>}"), "{T<U>}");
+        assert_eq!(pt("{ns.T}"), "{ns.T}");
+        assert_eq!(pt("{'lit'}"), "{\"lit\"}");
+        assert_eq!(pt("{a: number}"), "{a: number}");
+        assert_eq!(pt("{a: number,}"), "{a: number}");
+        assert_eq!(pt("{a: number;}"), "{a: number}");
+        assert_eq!(pt("{a: number, b: string; c: {d: nil}}"), "{a: number, b: string, c: {d: nil}}");
+        assert_eq!(pt("{[string]: number}"), "{[string]: number}");
+        assert_eq!(pt("{[number]: A | B}"), "{[number]: (A | B)}");
+        assert_eq!(pt("{[A | B]: C}"), "{[(A | B)]: C}");
+        assert_eq!(pt("{['key']: number}"), "{[\"key\"]: number}");
+        assert_eq!(pt("{[\"a b\"]: number, c: string, [number]: boolean}"), "{[\"a b\"]: number, c: string, [number]: boolean}");
+        assert_eq!(pt("{['a' | 'b']: number}"), "{[(\"a\" | \"b\")]: number}"); // a type, not a string key
+        assert_eq!(pt("{read a: number, write b: string}"), "{read a: number, write b: string}");
+        assert_eq!(pt("{read [string]: number}"), "{read [string]: number}");
+        assert_eq!(pt("{write ['k']: number}"), "{write [\"k\"]: number}");
+        assert_eq!(pt("{read: number, write: string}"), "{read: number, write: string}");
+        assert_eq!(pt("{read read: number}"), "{read read: number}");
+        assert_eq!(pt("{read}"), "{read}");
+        assert_eq!(pt("{type: number, export: string, continue: nil, typeof: T}"), "{type: number, export: string, continue: nil, typeof: T}");
+        assert_eq!(pt("{f: (a: number) -> (), g: () -> ()}"), "{f: fn(a: number) -> pack(), g: fn() -> pack()}");
+        for s in [
+            "{", "{a:}", "{a: number", "{a: number b: string}", "{a: number,,}", "{,}", "{number,}", "{number, string}", "{a: number, string}",
+            "{[string]}", "{[string]: }", "{[]: number}", "{['k'] = number}", "{a = number}", "{1: number}", "{end: number}", "{read a}", "{readd a: number}",
+            "{read write a: number}",
+        ] {
+            bad_type(s);
+        }
+    }
+
+    #[test]
+    fn function_types() {
+        assert_eq!(pt("() -> ()"), "fn() -> pack()");
+        assert_eq!(pt("(A) -> B"), "fn(A) -> B");
+        assert_eq!(pt("(A, B) -> C"), "fn(A, B) -> C");
+        assert_eq!(pt("(a: A, b: B) -> C"), "fn(a: A, b: B) -> C");
+        assert_eq!(pt("(a: A, B) -> C"), "fn(a: A, B) -> C");
+        assert_eq!(pt("(A, b: B) -> C"), "fn(A, b: B) -> C");
+        assert_eq!(pt("(...A) -> B"), "fn(...A) -> B");
+        assert_eq!(pt("(A, ...B) -> C"), "fn(A, ...B) -> C");
+        assert_eq!(pt("(T...) -> U..."), "fn(T...) -> U...");
+        assert_eq!(pt("(A, T...) -> ...B"), "fn(A, T...) -> ...B");
+        assert_eq!(pt("(A) -> (B, C)"), "fn(A) -> pack(B, C)");
+        assert_eq!(pt("(A) -> (B)"), "fn(A) -> pack(B)");
+        assert_eq!(pt("(A) -> (B)?"), "fn(A) -> P[B]?");
+        assert_eq!(pt("(A) -> (B) | C"), "fn(A) -> (P[B] | C)");
+        // after a multi-element return pack the `|` applies to the whole function type
+        assert_eq!(pt("(A) -> (B, C) | D"), "(fn(A) -> pack(B, C) | D)");
+        assert_eq!(pt("(A) -> () | D"), "(fn(A) -> pack() | D)");
+        assert_eq!(pt("(A) -> (B, C)?"), "fn(A) -> pack(B, C)?");
+        assert_eq!(pt("(A) -> (B, ...C)"), "fn(A) -> pack(B, ...C)");
+        assert_eq!(pt("(A) -> (B, C...)"), "fn(A) -> pack(B, C...)");
+        assert_eq!(pt("(A) -> (...C)"), "fn(A) -> pack(...C)");
+        assert_eq!(pt("(A) -> B?"), "fn(A) -> B?");
+        assert_eq!(pt("(A) -> B | C"), "fn(A) -> (B | C)");
+        assert_eq!(pt("(A) -> (B) -> C"), "fn(A) -> fn(B) -> C");
+        assert_eq!(pt("(A) -> (B) -> (C) -> ()"), "fn(A) -> fn(B) -> fn(C) -> pack()");
+        assert_eq!(pt("(A) -> (b: B) -> C"), "fn(A) -> fn(b: B) -> C");
+        assert_eq!(pt("((A) -> B)?"), "P[fn(A) -> B]?");
+        assert_eq!(pt("((A) -> B) | C"), "(P[fn(A) -> B] | C)");
+        assert_eq!(pt("<T>(T) -> T"), "fn<T>(T) -> T");
+        assert_eq!(pt("<T, U...>(T, U...) -> ()"), "fn<T, U...>(T, U...) -> pack()");
+        assert_eq!(pt("<T...>() -> T..."), "fn<T...>() -> T...");
+        assert_eq!(pt("(A) -> <T>(T) -> T"), "fn(A) -> fn<T>(T) -> T");
+        assert_eq!(pt("(typeof(x), {A}) -> ns.T<B>"), "fn(typeof(x), {A}) -> ns.T<B>");
+        assert_eq!(pt("(type: A, export: B) -> ()"), "fn(type: A, export: B) -> pack()");
+        for s in [
+            "() ->", "(A) -> ", "(A, B)", "() ", "(A,) -> B", "(,) -> B", "(A) : B", "(a: A)", "<T>(T)", "<T> T", "<>(T) -> T", "<T,>() -> ()",
+            "(...A, B) -> C", "(T..., U) -> ()", "(a: A) -> (b: B)", "(A) => B", "(A) - > B", "<T = A>() -> ()", "(1) -> A",
+        ] {
+            bad_type(s);
+        }
+    }
+
+    #[test]
+    fn unions_intersections_optionals() {
+        assert_eq!(pt("A?"), "A?");
+        assert_eq!(pt("A??"), "A??");
+        assert_eq!(pt("A | B"), "(A | B)");
+        assert_eq!(pt("A | B | C"), "(A | B | C)");
+        assert_eq!(pt("A & B"), "(A & B)");
+        assert_eq!(pt("A & B & C"), "(A & B & C)");
+        assert_eq!(pt("| A"), "(| A)");
+        assert_eq!(pt("| A | B"), "(| A | B)");
+        assert_eq!(pt("& A"), "(& A)");
+        assert_eq!(pt("& A & B"), "(& A & B)");
+        assert_eq!(pt("A? | B"), "(A? | B)");
+        assert_eq!(pt("A | B?"), "(A | B?)");
+        assert_eq!(pt("A | B? | C"), "(A | B? | C)");
+        assert_eq!(pt("| A?"), "(| A?)");
+        assert_eq!(pt("(A & B) | C"), "(P[(A & B)] | C)");
+        assert_eq!(pt("A & (B | C)"), "(A & P[(B | C)])");
+        assert_eq!(pt("(A & B)?"), "P[(A & B)]?");
+        assert_eq!(pt("{A}? | 'x' | nil"), "({A}? | \"x\" | nil)");
+        assert_eq!(pt("'a' | 'b' | 'c'"), "(\"a\" | \"b\" | \"c\")");
+        assert_eq!(pt("T<A>? | ns.U"), "(T<A>? | ns.U)");
+        assert_eq!(pt("typeof(x)?"), "typeof(x)?");
+        assert_eq!(pt("\n| A\n| B"), "(| A | B)");
+        // mixing without parentheses is rejected, as in the reference parser
+        for s in ["A | B & C", "A & B | C", "A & B?", "A? & B", "| A & B", "& A | B", "& A?", "A |", "A &", "| ", "A | | B", "?A", "A | ?"] {
+            bad_type(s);
+        }
+    }
+
+    #[test]
+    fn annotations_in_context() {
+        assert_eq!(ps("local a: A | B, c: C? = 1"), "local a: (A | B), c: C? = 1");
+        assert_eq!(ps("local f: (A) -> B = g"), "local f: fn(A) -> B = g");
+        assert_eq!(ps("local f: (A) -> (B, C) = g"), "local f: fn(A) -> pack(B, C) = g");
+        assert_eq!(ps("local t: {[string]: number} = {}"), "local t: {[string]: number} = {}");
+        assert_eq!(ps("function f(): (A) -> B end"), "function f(): fn(A) -> B {}");
+        assert_eq!(ps("function f(): (A, B) end"), "function f(): pack(A, B) {}");
+        assert_eq!(ps("function f(): (A) end"), "function f(): pack(A) {}");
+        assert_eq!(ps("function f(): (A)? end"), "function f(): P[A]? {}");
+        assert_eq!(ps("function f(): A | B end"), "function f(): (A | B) {}");
+        assert_eq!(ps("function f(): ...A end"), "function f(): ...A {}");
+        assert_eq!(ps("function f(): () end"), "function f(): pack() {}");
+        assert_eq!(ps("function f(): typeof(x) return x end"), "function f(): typeof(x) {return x}");
+        assert_eq!(ps("function f(a: A): A return a end"), "function f(a: A): A {return a}");
+        // the return annotation ends where a statement begins
+        assert_eq!(ps("function f(): A g() end"), "function f(): A {call g()}");
+        assert_eq!(ps("local x: A y = 1"), "local x: A; y = 1");
+        // `x :: T < b` is read as generic arguments, as in the reference parser
+        assert!(parse("local c = a :: T < b", Mode::Luau).is_err());
+        assert_eq!(ps("local c = (a :: T) < b"), "local c = (P[(a :: T)] < b)");
+        // `>=` is one token
+        assert!(parse("local x: T<A>= 1", Mode::Luau).is_err());
+        assert_eq!(ps("local x: T<A> = 1"), "local x: T<A> = 1");
+        for s in [
+            "local a: = 1",
+            "local a: 1 = 1",
+            "local a: (A, B) = 1",
+            "local a: T... = 1",
+            "local a: ...T = 1",
+            "function f(a: ) end",
+            "function f(): end",
+            "function f(): A, B end",
+            "function f() -> A end",
+            "function f(...: ) end",
+            "function f(... : T..., a) end",
+            "for i: = 1, 2 do end",
+            "function f<>() end",
+            "function f<T>.g() end",
+            "local x = f<T>()",
+            "a.b: T = 1",
+            "x = 1 :: ",
+            "local function f(a: A = 1) end",
+        ] {
+            assert!(parse(s, Mode::Luau).is_err(), "should reject {:?}", s);
+        }
+    }
+
+    #[test]
+    fn lua51_rejects_every_luau_construct() {
+        let cases = [
+            "local a: number = 1",
+            "local a: number",
+            "function f(a: number) end",
+            "function f(): number end",
+            "function f<T>() end",
+            "function f(...: number) end",
+            "for i: number = 1, 2 do end",
+            "for k: string in t do end",
+            "local x = y :: T",
+            "type A = number",
+            "export type A = number",
+            "type function f() end",
+            "local x = f<<T>>()",
+            "a += 1",
+            "a -= 1",
+            "a *= 1",
+            "a /= 1",
+            "a //= 1",
+            "a %= 1",
+            "a ^= 1",
+            "a ..= 'x'",
+            "while true do continue end",
+            "local x = if a then b else c",
+            "local x = `abc`",
+            "local x = `a{b}c`",
+            "local x = a // b",
+            "@native function f() end",
+            "@[native] function f() end",
+            "local f = @native function() end",
+            "const a = 1",
+            "const function f() end",
+            "local x = 0b101",
+            "local x = 1_000",
+            "local x = 0x_ff",
+            "local x = '\\x41'",
+            "local x = '\\z  a'",
+            "local x = '\\u{41}'",
+            "f '\\x41'",
+            "x = {['\\x41'] = 1}",
+        ];
+        for s in cases {
+            assert!(parse(s, Mode::Luau).is_ok(), "Luau should accept {:?}: {:?}", s, parse(s, Mode::Luau).err());
+            assert!(parse(s, Mode::Lua51).is_err(), "5.1 should reject {:?}", s);
+        }
+        // the 5.1 counterparts are fine
+        for s in ["local x = '\\\\x41'", "local x = 0xff", "local x = a / b", "local x = [[\\x41]]", "continue = 1", "continue()"] {
+            assert!(parse(s, Mode::Lua51).is_ok(), "{:?}", s);
+        }
+    }
+
+    #[test]
+    fn ambiguous_call_rule() {
+        let amb = ["f\n(g)()", "local a = f\n(g).x = 1", "a.b\n(c)", "f()\n(g)()", "f 'x'\n(g)()", "f [[a\nb]]\n(g)()", "a = b -- c\n(d)()", "a:b\n(c)"];
+        for s in amb {
+            assert!(parse(s, Mode::Lua51).is_err(), "5.1 should reject {:?}", s);
+        }
+        // Luau mode parses them as calls and records the offsets
+        let o = parse("f\n(g)()", Mode::Luau).unwrap();
+        assert_eq!(dump::block(&o.block), "call f(g)()");
+        assert_eq!(o.ambiguous_calls, vec![2]);
+        let o = parse("a = b\n(c)()", Mode::Luau).unwrap();
+        assert_eq!(dump::block(&o.block), "a = b(c)()");
+        assert_eq!(o.ambiguous_calls, vec![6]);
+        // not ambiguous
+        for s in [
+            "f(g)()",
+            "f(\ng\n)(\n)",
+            "f\n{g}",
+            "f\n'x'",
+            "f [[a\nb]] (g)",
+            "a = b;\n(c)()",
+            "local a = f\nlocal b = (g)",
+            "f\n.x()",
+            "f(\n)",
+            "f(function()\nend)(g)",
+            "do end\n(f)()",
+            "a = {\n}\n;(f)()",
+        ] {
+            let o51 = parse(s, Mode::Lua51).unwrap_or_else(|e| panic!("{:?}: {}", s, e));
+            let o = parse(s, Mode::Luau).unwrap();
+            assert_eq!(o.block, o51.block);
+            assert!(o.ambiguous_calls.is_empty(), "{:?}", s);
+        }
+    }
+
+    fn spans(src: &str) -> Vec<&str> {
+        let o = parse(src, Mode::Luau).unwrap_or_else(|e| panic!("{:?}: {}", src, e));
+        for w in o.type_spans.windows(2) {
+            assert!(w[0].1 <= w[1].0);
+        }
+        o.type_spans.iter().map(|&(a, b)| &src[a..b]).collect()
+    }
+
+    #[test]
+    fn type_spans() {
+        assert_eq!(spans("local a = 1"), Vec::<&str>::new());
+        assert_eq!(spans("local a: number = 1"), vec![": number"]);
+        assert_eq!(spans("local a : number , b:string?=1"), vec![": number", ":string?"]);
+        assert_eq!(spans("local a --[[c]] : --[[d]] number --[[e]] = 1"), vec![": --[[d]] number"]);
+        assert_eq!(
+            spans("function f<T>(a: T, ...: T): (T, T) return a :: T end"),
+            vec!["<T>", ": T", ": T", ": (T, T)", ":: T"]
+        );
+        assert_eq!(spans("local function f < T , U... > () end"), vec!["< T , U... >"]);
+        assert_eq!(spans("local f = function<T>(): T end"), vec!["<T>", ": T"]);
+        assert_eq!(spans("for i: number = 1, 2 do end for k: K, v: V in t do end"), vec![": number", ": K", ": V"]);
+        assert_eq!(spans("x = f<<A, B<C>>>(1)"), vec!["<<A, B<C>>>"]);
+        assert_eq!(spans("x = f < < A > > (1)"), vec!["< < A > >"]);
+        assert_eq!(spans("x = (y :: A) :: B | C"), vec![":: A", ":: B | C"]);
+        assert_eq!(spans("type A = number\nlocal x = 1"), vec!["type A = number"]);
+        assert_eq!(spans("x = 1 export type A<T = number> = {T} x = 2"), vec!["export type A<T = number> = {T}"]);
+        assert_eq!(spans("export  --[[c]]  type A = B"), vec!["export  --[[c]]  type A = B"]);
+        assert_eq!(
+            spans("type function f(a: number): number return a :: any end x = 1"),
+            vec!["type function f(a: number): number return a :: any end"]
+        );
+        // nested type syntax is part of the outer span
+        assert_eq!(
+            spans("local x: typeof(function(a: number): string return a :: any end) = 1"),
+            vec![": typeof(function(a: number): string return a :: any end)"]
+        );
+        assert_eq!(spans("local f: <T>(a: T) -> T = g"), vec![": <T>(a: T) -> T"]);
+        assert_eq!(spans("const a: number = 1"), vec![": number"]);
+        assert_eq!(spans("function f(...: T...) end"), vec![": T..."]);
+        // a function body inside a cast's operand is outside the span of the cast
+        assert_eq!(spans("x = (function(a: A) end) :: F"), vec![": A", ":: F"]);
+        // removing the spans leaves valid untyped code
+        let src = "local function f<T>(a: T, b: number?): (T, number)\n  local c: T = a :: T\n  return c, b :: number\nend\ntype X = number\nfor i: number = 1, 2 do end";
+        let o = parse(src, Mode::Luau).unwrap();
+        let mut stripped = String::new();
+        let mut at = 0;
+        for &(a, b) in &o.type_spans {
+            stripped.push_str(&src[at..a]);
+            at = b;
+        }
+        stripped.push_str(&src[at..]);
+        let o2 = parse(&stripped, Mode::Lua51).unwrap_or_else(|e| panic!("{:?}: {}", stripped, e));
+        assert_eq!(dump::block(&o2.block), "local function f(a, b) {local c = a; return c, b}; for i = 1, 2 {}");
+    }
+
+    #[test]
+    fn parse_output_carries_tokens_and_comments() {
+        let src = "#!shebang\n-- c1\nlocal a = 1 --[[c2]] return a";
+        let o = parse(src, Mode::Lua51).unwrap();
+        assert_eq!(o.shebang.as_deref(), Some("#!shebang"));
+        let texts: Vec<&str> = o.tokens.iter().map(|t| t.text.as_str()).collect();
+        assert_eq!(texts, vec!["local", "a", "=", "1", "return", "a", ""]);
+        assert_eq!(o.tokens.last().unwrap().kind, TokKind::Eof);
+        let cs: Vec<&str> = o.comments.iter().map(|c| c.text.as_str()).collect();
+        assert_eq!(cs, vec!["-- c1", "--[[c2]]"]);
+    }
+
+    /// The first attempt (on the caller's stack) must be frugal: everything that parses within
+    /// `TIER1_DEPTH` levels fits in 512 KiB, deeper inputs move to the parser's own thread.
+    #[test]
+    fn small_caller_stack_is_enough() {
+        let h = std::thread::Builder::new()
+            .stack_size(512 << 10)
+            .spawn(|| {
+                for n in [TIER1_DEPTH - 2, TIER1_DEPTH + 50, MAX_DEPTH - 10, 5000] {
+                    let ok = n < MAX_DEPTH - 5;
+                    let srcs = [
+                        format!("x = {}1{}", "f(".repeat(n), ")".repeat(n)),
+                        format!("x = {}1{}", "(".repeat(n), ")".repeat(n)),
+                        format!("x = {}1{}", "a[".repeat(n), "]".repeat(n)),
+                        format!("x = {}{}", "{".repeat(n), "}".repeat(n)),
+                        format!("{}{}", "if a then ".repeat(n), "end ".repeat(n)),
+                        format!("{}{}", "do ".repeat(n), "end ".repeat(n)),
+                        format!("x = {}1", "if a then b else ".repeat(n)),
+                        format!("x = {}1{}", "`{".repeat(n), "}`".repeat(n)),
+                        format!("x = {}{}", "function() return ".repeat(n / 2), " end".repeat(n / 2)),
+                        format!("type X = {}A{}", "{".repeat(n / 2), "}".repeat(n / 2)),
+                        format!("x = {}1", "a ^ ".repeat(n)),
+                        format!("x = {}1", "- ".repeat(n)),
+                    ];
+                    for s in &srcs {
+                        assert_eq!(parse(s, Mode::Luau).is_ok(), ok, "n = {}: {:.60}", n, s);
+                    }
+                }
+            })
+            .unwrap();
+        h.join().unwrap();
+    }
+
+    #[test]
+    fn nesting_limits() {
+        // recursion depth: MAX_DEPTH levels are fine on a default 2 MiB test thread, more is an error
+        let deep = |n: usize| format!("x = {}1{}", "(".repeat(n), ")".repeat(n));
+        assert!(parse(&deep(MAX_DEPTH - 5), Mode::Luau).is_ok());
+        assert!(parse(&deep(MAX_DEPTH + 5), Mode::Luau).is_err());
+        assert!(parse(&deep(100_000), Mode::Luau).is_err());
+        let deep_tbl = |n: usize| format!("x = {}{}", "{".repeat(n), "}".repeat(n));
+        assert!(parse(&deep_tbl(MAX_DEPTH - 5), Mode::Lua51).is_ok());
+        assert!(parse(&deep_tbl(100_000), Mode::Lua51).is_err());
+        let deep_blocks = |n: usize| format!("{}{}", "do ".repeat(n), "end ".repeat(n));
+        assert!(parse(&deep_blocks(MAX_DEPTH - 5), Mode::Lua51).is_ok());
+        assert!(parse(&deep_blocks(100_000), Mode::Lua51).is_err());
+        let deep_fn = |n: usize| format!("x = {}{}", "function() return ".repeat(n), " end".repeat(n));
+        assert!(parse(&deep_fn(60), Mode::Lua51).is_ok());
+        assert!(parse(&deep_fn(100_000), Mode::Lua51).is_err());
+        let deep_unary = |n: usize| format!("x = {}1", "- ".repeat(n));
+        assert!(parse(&deep_unary(MAX_DEPTH - 5), Mode::Lua51).is_ok());
+        assert!(parse(&deep_unary(100_000), Mode::Lua51).is_err());
+        // `..` chains are folded iteratively: they count as a chain, not as nesting levels
+        let deep_concat = |n: usize| format!("x = {}1", "a .. ".repeat(n));
+        assert!(parse(&deep_concat(MAX_DEPTH + 100), Mode::Lua51).is_ok());
+        let o = parse(&deep_concat(MAX_CHAIN), Mode::Lua51).unwrap();
+        assert_eq!(crate::luasyn::census::census(&o.block).max_nesting, 2 + MAX_CHAIN + 1);
+        assert!(parse(&deep_concat(MAX_CHAIN + 1), Mode::Lua51).is_err());
+        assert!(parse(&deep_concat(100_000), Mode::Lua51).is_err());
+        let deep_pow = |n: usize| format!("x = {}1", "a ^ ".repeat(n));
+        assert!(parse(&deep_pow(MAX_DEPTH - 5), Mode::Lua51).is_ok());
+        assert!(parse(&deep_pow(100_000), Mode::Lua51).is_err());
+        let deep_type = |n: usize| format!("type X = {}A{}", "{".repeat(n), "}".repeat(n));
+        assert!(parse(&deep_type(50), Mode::Luau).is_ok());
+        assert!(parse(&deep_type(100_000), Mode::Luau).is_err());
+        let deep_fn_type = |n: usize| format!("type X = {}A", "() -> ".repeat(n));
+        assert!(parse(&deep_fn_type(50), Mode::Luau).is_ok());
+        assert!(parse(&deep_fn_type(100_000), Mode::Luau).is_err());
+        let deep_interp = |n: usize| format!("x = {}1{}", "`{".repeat(n), "}`".repeat(n));
+        assert!(parse(&deep_interp(50), Mode::Luau).is_ok());
+        assert!(parse(&deep_interp(100_000), Mode::Luau).is_err());
+        let deep_if = |n: usize| format!("x = {}1", "if a then b else ".repeat(n));
+        assert!(parse(&deep_if(50), Mode::Luau).is_ok());
+        assert!(parse(&deep_if(100_000), Mode::Luau).is_err());
+        // left-nesting chains: bounded by MAX_CHAIN
+        let chain = |n: usize| format!("x = 1{}", " + 1".repeat(n));
+        assert!(parse(&chain(MAX_CHAIN - 1), Mode::Lua51).is_ok());
+        assert!(parse(&chain(100_000), Mode::Lua51).is_err());
+        let calls = |n: usize| format!("f{}", "()".repeat(n));
+        assert!(parse(&calls(MAX_CHAIN - 1), Mode::Lua51).is_ok());
+        assert!(parse(&calls(100_000), Mode::Lua51).is_err());
+        let fields = |n: usize| format!("x = a{}", ".b".repeat(n));
+        assert!(parse(&fields(MAX_CHAIN - 1), Mode::Lua51).is_ok());
+        assert!(parse(&fields(100_000), Mode::Lua51).is_err());
+        let opt = |n: usize| format!("type X = A{}", "?".repeat(n));
+        assert!(parse(&opt(MAX_CHAIN - 1), Mode::Luau).is_ok());
+        assert!(parse(&opt(100_000), Mode::Luau).is_err());
+        // long flat lists are fine
+        let many = "x = 1\n".repeat(20_000);
+        assert_eq!(parse(&many, Mode::Lua51).unwrap().block.stmts.len(), 20_000);
+        let wide = format!("x = {{{}}}", "1,".repeat(50_000));
+        assert!(parse(&wide, Mode::Lua51).is_ok());
+        let union = format!("type X = A{}", " | A".repeat(5000));
+        assert!(parse(&union, Mode::Luau).is_ok());
+        // chains inside chains add up along a path ...
+        let nested = |n: usize| format!("x = (1{}){}", " + 1".repeat(n), " + 1".repeat(n));
+        assert!(parse(&nested(600), Mode::Lua51).is_err());
+        assert!(parse(&nested(400), Mode::Lua51).is_ok());
+        let nested = |n: usize| format!("x = f(1{}){}", " + 1".repeat(n), ".a".repeat(n));
+        assert!(parse(&nested(600), Mode::Lua51).is_err());
+        assert!(parse(&nested(400), Mode::Lua51).is_ok());
+        let nested = |n: usize| format!("x = a[1{}]{}{}", " .. 1".repeat(150), "()".repeat(n), " + 1".repeat(n));
+        assert!(parse(&nested(500), Mode::Lua51).is_err());
+        assert!(parse(&nested(400), Mode::Lua51).is_ok());
+        // (an operand in the middle of a chain only counts with the part of the chain above it)
+        let middle = format!("x = 1{} + (1{}){}", " + 1".repeat(400), " + 1".repeat(400), " + 1".repeat(400));
+        assert!(parse(&middle, Mode::Lua51).is_ok());
+        // ... but not across siblings
+        let siblings = format!("x = {{{}}}", format!("1{},", " + 1".repeat(900)).repeat(20));
+        assert!(parse(&siblings, Mode::Lua51).is_ok());
+        let siblings = format!("{}", format!("x = a{}
+", ".b".repeat(900)).repeat(20));
+        assert!(parse(&siblings, Mode::Lua51).is_ok());
+        // the census reports the depth actually reached
+        let o = parse(&chain(MAX_CHAIN - 1), Mode::Lua51).unwrap();
+        assert_eq!(crate::luasyn::census::census(&o.block).max_nesting, 2 + MAX_CHAIN);
+    }
+}
+
+#[cfg(test)]
+mod robustness {
+    use super::*;
+
+    struct Rng(u64);
+    impl Rng {
+        fn next(&mut self) -> u64 {
+            self.0 = self.0.wrapping_mul(6364136223846793005).wrapping_add(1442695040888963407);
+            self.0 >> 33
+        }
+        fn below(&mut self, n: usize) -> usize {
+            (self.next() % n as u64) as usize
+        }
+    }
+
+    const VOCAB: &[&str] = &[
+        "a", "b", "f", "type", "export", "continue", "const", "typeof", "read", "write", "self", "T", "number", "and", "break", "do", "else",
+        "elseif", "end", "false", "for", "function", "if", "in", "local", "nil", "not", "or", "repeat", "return", "then", "true", "until",
+        "while", "1", "0x1F", "0b1", "1_0", ".5", "1e3", "'s'", "\"\\x41\"", "[[x]]", "[=[y]=]", "`a`", "`a{", "}b{", "}c`", "...", "..", "..=",
+        "==", "~=", "<=", ">=", "::", "->", "+=", "-=", "*=", "/=", "//", "//=", "%=", "^=", "+", "-", "*", "/", "%", "^", "#", "<", ">", "=",
+        "(", ")", "{", "}", "[", "]", ";", ":", ",", ".", "?", "|", "&", "@", "\n", "-- c\n", "--[[ c ]]", "@native", "<<", ">>",
+    ];
+
+    /// The parser must never panic, loop or overflow, whatever the token sequence.
+    #[test]
+    fn random_token_soup_never_panics() {
+        let mut rng = Rng(0x1234_5678_9abc_def0);
+        let mut accepted = 0;
+        for _ in 0..30_000 {
+            let n = 1 + rng.below(24);
+            let mut src = String::new();
+            for _ in 0..n {
+                src.push_str(VOCAB[rng.below(VOCAB.len())]);
+                src.push(' ');
+            }
+            for mode in [Mode::Luau, Mode::Lua51] {
+                if let Ok(o) = parse(&src, mode) {
+                    accepted += 1;
+                    let _ = crate::luasyn::census::census(&o.block);
+                    let _ = crate::luasyn::resolve::resolve(&o.block);
+                    for w in o.type_spans.windows(2) {
+                        assert!(w[0].1 <= w[1].0, "{:?}", src);
+                    }
+                    // whatever 5.1 mode accepts, Luau mode accepts with the same tree
+                    if mode == Mode::Lua51 {
+                        let l = parse(&src, Mode::Luau).unwrap_or_else(|e| panic!("5.1 ok, Luau not: {:?}: {}", src, e));
+                        assert_eq!(l.block, o.block, "{:?}", src);
+                        assert!(l.type_spans.is_empty());
+                        assert!(!crate::luasyn::census::census(&l.block).any_luau(), "{:?}", src);
+                    }
+                }
+                let _ = parse_expr(&src, mode);
+            }
+        }
+        assert!(accepted > 100, "only {} random programs were accepted", accepted);
+    }
+
+    /// Token-level mutations of valid programs: delete / duplicate / swap tokens.
+    #[test]
+    fn mutated_programs_never_panic() {
+        let seeds = [
+            "local function f<T>(a: T, ...: T): (T, T) if a then return a :: T, a else for i = 1, 2 do continue end end return a, a end",
+            "type A<T, U... = ...number> = { read x: T, [string]: (T, U...) -> () } | nil export type B = typeof(f(`a{1}b`))",
+            "local t = { a = 1, [2] = function(...) return ... end, f'x', g{}, h:m(1)[2].z } t.a.b, c = 1, 2 x += y // 2",
+            "repeat local x = if a then b elseif c then d else e until x while true do break end @native function a.b:c() end",
+            "const x: number = 0b1_0 const function g() end f<<T, (A, B)>>(1) local s = `x{ {1} }y{`z{2}`}`",
+        ];
+        let mut rng = Rng(42);
+        for seed in seeds {
+            assert!(parse(seed, Mode::Luau).is_ok(), "{:?}: {:?}", seed, parse(seed, Mode::Luau).err());
+            let toks: Vec<String> = lex(seed, Mode::Luau).unwrap().tokens.iter().map(|t| t.text.clone()).collect();
+            for _ in 0..4000 {
+                let mut v = toks.clone();
+                for _ in 0..1 + rng.below(3) {
+                    if v.is_empty() {
+                        break;
+                    }
+                    let i = rng.below(v.len());
+                    match rng.below(4) {
+                        0 => {
+                            v.remove(i);
+                        }
+                        1 => {
+                            let t = v[i].clone();
+                            v.insert(i, t);
+                        }
+                        2 => {
+                            let j = rng.below(v.len());
+                            v.swap(i, j);
+                        }
+                        _ => v[i] = VOCAB[rng.below(VOCAB.len())].to_string(),
+                    }
+                }
+                let src = v.join(" ");
+                for mode in [Mode::Luau, Mode::Lua51] {
+                    let _ = parse(&src, mode);
+                }
+            }
+        }
+    }
+
+    /// Arbitrary bytes (valid UTF-8) through the lexer and parser.
+    #[test]
+    fn random_characters_never_panic() {
+        let alphabet: Vec<char> = "ab1 \n\r\t\"'`[]={}()\\-.<>:/|&?@#%^*+~,;_xzu0é\u{feff}\0".chars().collect();
+        let mut rng = Rng(7);
+        for _ in 0..30_000 {
+            let n = rng.below(16);
+            let src: String = (0..n).map(|_| alphabet[rng.below(alphabet.len())]).collect();
+            for mode in [Mode::Luau, Mode::Lua51] {
+                if let Ok(o) = lex(&src, mode) {
+                    for t in &o.tokens {
+                        assert_eq!(&src[t.start..t.end], t.text);
+                    }
+                    for c in &o.comments {
+                        assert_eq!(&src[c.start..c.end], c.text);
+                    }
+                }
+                let _ = parse(&src, mode);
+            }
         }
     }
 }
